@@ -1,23 +1,34 @@
 // L8: BoxedUint algorithms (src/uint/boxed/*.rs) proved over ASSUMED contracts of the boxed primitives -- C20 C07 C02 C15 C10
 // (companions: l8_boxed_invmod.rs = inv_mod / inv_mod2k*, l8_boxed_pow.rs = BoxedMontyMultiplier + pow_montgomery_form,
-//  l8_boxed_ct.rs = ct_assign, l8_boxed_lemmas.rs = shared number-theory lemmas)
+//  l8_boxed_ct.rs = ct_assign + set_zero, l8_boxed_lemmas.rs = shared number-theory lemmas)
 //
 // Every BoxedUint handled here satisfies `wf()`: 1 <= nlimbs < 2^26 (`bits_precision()` = `len as u32 * 64` overflows above); the
 // contracts state value `v()` AND result precision `nl()` (= bits_precision / 64) -- C15 "results have the documented precision".
 //
-// Layer 1, ASSUMED (`stub`; Vec / iterator / closure / `vec!` code, contracts read off the code of /repo; bounded Kani harnesses cover them):
-//   zero_with_precision, is_zero, overflowing_shl_assign, overflowing_shr_assign, shl1_assign, shr1_assign (`<<=`/`>>=` by an i32 literal),
-//   adc, sbb (fold_limbs: result precision = max, shorter operand zero-extended), adc_assign, sbb_assign (rhs: impl AsRef<[Limb]>, asserts
-//   rhs not wider), mul (n + m limbs), shorten, bitand (map_limbs), cmp_vartime (core::cmp::max / Option::copied unspecified in vstd),
-//   ConstantTimeEq::ct_eq, ConstantTimeSelect::ct_select (equal precisions, else truncation / index panic), Ord::cmp,
-//   as_limbs, as_limbs_mut, From<u64 | u128 | Limb | &[Limb]>, div_rem_unchecked (constant-time Knuth D: equal limb counts asserted),
-//   div_rem_vartime (see LIMITATION 1), safegcd::boxed::gcd (Bernstein-Yang core), Integer::is_odd (provided trait method, hand-declared).
-//   Library: `<BoxedUint as Clone>::clone` (derived), `<[T]>::clone_from_slice`. Model of subtle: ConditionallySelectable (u64, u32),
-//   ConstantTimeGreater / ConstantTimeLess (u32), ConstantTimeEq for u32.
-// Layer 1, PROVED (`body`): nlimbs, bits_precision, one_with_precision, is_nonzero, leading_zeros, bits, bits_vartime, trailing_zeros (over the
+// Layer 1, ASSUMED (`stub`):
+//   fold_limbs, map_limbs (`let &a = ..`: Verus "ref patterns" unsupported; higher-order contracts over `f.requires` / `f.ensures`),
+//   From<u64 | u128> (go through `impl From<u64 | u128> for Uint<LIMBS>`, whose `debug_assert!(LIMBS >= ..)` needs a `requires`
+//   that a trait-impl method cannot carry), div_rem_unchecked (constant-time Knuth D: equal limb counts asserted), div_rem_vartime (see LIMITATION 1),
+//   safegcd::boxed::gcd (Bernstein-Yang core), Integer::is_odd (provided trait method, hand-declared).
+//   Library (assume_specification): `<BoxedUint as Clone>::clone` (derived), `<[T]>::clone_from_slice`, `Box<T>::as_ref / as_mut`, `Vec<T>: From<Box<[T]>>`,
+//   `Box<[T]>: From<&[T]>`, `core::cmp::max`, `Option<&T>::copied`, `<slice::Iter as Iterator>::fold`, `<Ordering as PartialEq>::eq`
+//   (+ `Vec::into_boxed_slice`, `Box<[T]>: From<Vec<T>>` in l7_boxed_div.rs). Model of subtle: ConditionallySelectable (u64, u32, Ordering),
+//   ConstantTimeGreater / ConstantTimeLess (u32), ConstantTimeEq for u32, BitAndAssign for Choice (verified against BitAnd). Model of core:
+//   `&T: AsRef<U>` forwards (`obeys_as_ref_spec`).
+// Layer 1, PROVED (`body`): limbs_for_precision, zero_with_precision, is_zero (fold + closure), From<Vec<Limb>> (l7_boxed_div.rs), From<Box<[Limb]>>,
+//   From<&[Limb]>, From<Limb>, adc, sbb (closures over fold_limbs; sbb is total), bitand (map_limbs), adc_assign, sbb_assign (rhs: impl AsRef<[Limb]>,
+//   under `asref_ok(&rhs)`), shl1_assign, shr1_assign, shl_vartime_into, shr_vartime_into (dest pre-zeroized = precondition), conditional_set_zero,
+//   overflowing_shl_assign, overflowing_shr_assign (constant-time ladder over the two; `ct_assign` and `Zero::set_zero` are the second methods of trait
+//   impls already used here, so they are declared and proved in l8_boxed_ct.rs and imported by name: the two modules import each other), wrapping_neg, mul (schoolbook / Karatsuba slices of l7_boxed_slices.rs), shorten, cmp_vartime,
+//   ConstantTimeEq::ct_eq, ConstantTimeSelect::ct_select, Ord::cmp, as_limbs, as_limbs_mut, the `i32` arms of `impl_shl! / impl_shr!` for Limb,
+//   nlimbs, bits_precision, one_with_precision, is_nonzero, leading_zeros, bits, bits_vartime, trailing_zeros (over the
 //   slice functions of l2_shift.rs), overflowing_shl / overflowing_shr / overflowing_shl1 / shr1 (clone + *_assign), wrapping_add / wrapping_sub /
-//   wrapping_mul, conditional_adc_assign / conditional_sbb_assign (limb loops), ct_gt, ct_lt, PartialEq / PartialOrd, Zero::is_zero, `BitAnd for Limb`,
+//   wrapping_mul, conditional_adc_assign / conditional_sbb_assign (limb loops), ct_gt, ct_lt (total), PartialEq / PartialOrd, Zero::is_zero, `BitAnd for Limb`,
 //   `ConditionallySelectable for Limb`, `AsRef<[Limb]> for BoxedUint`, NonZero::as_ref, div_rem(_limb)(_with_reciprocal), rem_limb*.
+// FINDING (contract repaired while proving it): the assumed contract of `sbb_assign` promised a mask-shaped borrow for EVERY input; for a
+//   zero-limb `self` (reachable: `BoxedUint::from(&[][..])`) the function returns `borrow` unchanged, e.g. `Limb(1 << 63)`. The proved contract
+//   requires `nlimbs >= 1 || borrow is 0 / MAX` (all callers pass `Limb::ZERO`). `adc_assign` / `sbb_assign` now also require `asref_ok(&rhs)`
+//   (the result of `rhs.as_ref()` is `rhs.as_ref_spec()`): the assumed contract silently identified the two.
 // Layer 2, PROVED (`body`):
 //   C20  sqrt (incl. the Hast iteration bound `log2_bits() + 2`), sqrt_vartime, wrapping_sqrt(_vartime), checked_sqrt(_vartime), SquareRoot::sqrt,
 //        `BitOps::log2_bits` (default method of the trait, extracted from src/traits.rs) + `BitOps for BoxedUint::bits_precision`
@@ -42,8 +53,10 @@ use vstd::arithmetic::power::*;
 use vstd::arithmetic::power2::*;
 use vstd::arithmetic::div_mod::*;
 use vstd::std_specs::bits::*;
-use core::cmp::Ordering;
-use core::ops::{BitAnd, Div, Rem};
+use vstd::std_specs::cmp::*;
+use vstd::std_specs::iter::IteratorSpec;
+use core::cmp::{Ordering, max};
+use core::ops::{BitAnd, Div, Rem, Shl, Shr, ShlAssign, ShrAssign};
 use crate::speclib::*;
 use crate::speclib_bits::*;
 use crate::l0_prim::*;
@@ -59,9 +72,12 @@ use crate::l4_sqrt::*;
 use crate::l4_modular::*;
 use crate::l7_traits::*;
 use crate::l7_boxed_div::*;
+use crate::l7_boxed_slices::*;
 use crate::l4_invmod::gcd as spec_gcd;
 use crate::l4_invmod::{lemma_gcd_divides};
 use crate::l8_boxed_lemmas::*;
+use crate::l8_boxed_ct::ConstantTimeSelect as CtAssign;   // `ct_assign` (second method of the trait impl: declared and proved in l8_boxed_ct.rs)
+use crate::l8_boxed_ct::Zero as ZeroSet;                  // `set_zero` (same situation)
 verus! {
 
 // ------------------------------------------------------------------------------------------------
@@ -74,6 +90,85 @@ pub assume_specification [<BoxedUint as Clone>::clone] (x: &BoxedUint) -> (r: Bo
 pub assume_specification<T: Clone> [<[T]>::clone_from_slice] (s: &mut [T], src: &[T])
     requires old(s).len() == src.len()
     ensures final(s)@ == src@;
+
+// `<Box<T> as AsRef<T>>::as_ref` / `<Box<T> as AsMut<T>>::as_mut`: the pointee (`self.limbs.as_ref()`, `self.limbs.as_mut()`)
+pub assume_specification<T: core::marker::MetaSized + ?Sized, A: core::alloc::Allocator> [<Box<T, A> as AsRef<T>>::as_ref] (b: &Box<T, A>) -> (r: &T)
+    ensures r == &**b;
+pub assume_specification<T: core::marker::MetaSized + ?Sized, A: core::alloc::Allocator> [<Box<T, A> as AsMut<T>>::as_mut] (b: &mut Box<T, A>) -> (r: &mut T)
+    ensures &*r == &**old(b), &*final(r) == &**final(b);
+// `impl<T, A> From<Box<[T], A>> for Vec<T, A>` (= `<[T]>::into_vec`): same elements
+pub assume_specification<T, A: core::alloc::Allocator> [<Vec<T, A> as From<Box<[T], A>>>::from] (b: Box<[T], A>) -> (r: Vec<T, A>)
+    ensures r@ == b@;
+// `core::cmp::max(a, b)`: `b` unless `a > b` (core: `max_by(v1, v2, Ord::cmp)`)
+#[verifier::allow(undeclared_external_trait)]
+pub assume_specification<T: core::cmp::Ord + core::marker::Destruct> [core::cmp::max] (a: T, b: T) -> (r: T)
+    ensures T::obeys_cmp_spec() ==> r == (if a.cmp_spec(&b) == Ordering::Greater { a } else { b });
+// `<slice::Iter<T> as Iterator>::fold` (the slice iterator overrides the provided method): the accumulator chain over the remaining items.
+// (closures handled by Verus capture no mutable state, so one `f` describes every call)
+pub assume_specification<'a, T, B, F: FnMut(B, &'a T) -> B> [<core::slice::Iter<'a, T> as Iterator>::fold] (it: core::slice::Iter<'a, T>, init: B, f: F) -> (r: B)
+    requires forall|acc: B, x: &'a T| #[trigger] f.requires((acc, x))
+    ensures exists|accs: Seq<B>| #[trigger] accs.len() == IteratorSpec::remaining(&it).len() + 1 && accs[0] == init && accs[accs.len() - 1] == r
+        && forall|k: int| 1 <= k < accs.len() ==> f.ensures((accs[k - 1], IteratorSpec::remaining(&it)[k - 1]), #[trigger] accs[k]);
+// `#[derive(PartialEq)]` of `core::cmp::Ordering` (`ret == Ordering::Equal` in `Ord::cmp`)
+pub assume_specification [<Ordering as PartialEq>::eq] (a: &Ordering, b: &Ordering) -> (r: bool)
+    ensures r == (*a == *b);
+// `Option::<&T>::copied`
+pub assume_specification<'a, T: Copy> [Option::<&'a T>::copied] (o: Option<&'a T>) -> (r: Option<T>)
+    ensures r == (match o { Some(x) => Some(*x), None => None });
+// `impl<T: Clone> From<&[T]> for Box<[T]>`: element-wise clone (`limbs.into()` in `From<&[Limb]> for BoxedUint`)
+pub assume_specification<'a, T: Clone> [<Box<[T]> as From<&'a [T]>>::from] (s: &[T]) -> (r: Box<[T]>)
+    ensures r@.len() == s@.len(), forall|k: int| 0 <= k < s@.len() ==> cloned(s@[k], #[trigger] r@[k]);
+
+// ------------------------------------------------------------------------------------------------
+// `impl_shl!(i32, u32, usize)` / `impl_shr!(..)` of src/limb/shl.rs, src/limb/shr.rs: the `$shift = i32` arms, written out by hand like the
+// u32 arms in l7_boxed_div.rs (the macrofn extractor cannot instantiate `$( .. )+` arms). With both arms present an integer literal shift
+// amount (`x << 1`, `x.shl_assign(1)`, `x.shr_assign(1)` in shl1_assign / shr1_assign) resolves to i32 exactly as in /repo. Bodies VERIFIED
+// (vstd specifies `u32::try_from(i32)`), against the inherent `Limb::shl` / `Limb::shr` (l1_limb.rs).
+// ------------------------------------------------------------------------------------------------
+impl vstd::std_specs::ops::ShlSpecImpl<i32> for Limb {
+    open spec fn obeys_shl_spec() -> bool { true }
+    open spec fn shl_req(self, rhs: i32) -> bool { 0 <= rhs < 64 }
+    open spec fn shl_spec(self, rhs: i32) -> Limb { Limb(self.0 << (rhs as u32)) }
+}
+impl Shl<i32> for Limb {
+    type Output = Limb;
+    fn shl(self, shift: i32) -> (ret__: Limb)
+    {
+        proof { if 0 <= shift < 64 { lemma_u64_shl_mod(self.0, shift as u32); } }
+        Self::shl(self, u32::try_from(shift).expect("invalid shift"))
+    }
+}
+impl vstd::std_specs::ops::ShrSpecImpl<i32> for Limb {
+    open spec fn obeys_shr_spec() -> bool { true }
+    open spec fn shr_req(self, rhs: i32) -> bool { 0 <= rhs < 64 }
+    open spec fn shr_spec(self, rhs: i32) -> Limb { Limb(self.0 >> (rhs as u32)) }
+}
+impl Shr<i32> for Limb {
+    type Output = Limb;
+    fn shr(self, shift: i32) -> (ret__: Limb)
+    {
+        proof { if 0 <= shift < 64 { lemma_u64_shr_div(self.0, shift as u32); } }
+        Self::shr(self, u32::try_from(shift).expect("invalid shift"))
+    }
+}
+impl vstd::std_specs::ops::ShlAssignSpecImpl<i32> for Limb {
+    open spec fn obeys_shl_assign_spec() -> bool { true }
+    open spec fn shl_assign_req(&self, rhs: i32) -> bool { 0 <= rhs < 64 }
+    open spec fn shl_assign_spec(&self, rhs: i32) -> &Limb { &Limb(self.0 << (rhs as u32)) }
+}
+impl ShlAssign<i32> for Limb {
+    fn shl_assign(&mut self, shift: i32)
+    { *self = *self << shift; }
+}
+impl vstd::std_specs::ops::ShrAssignSpecImpl<i32> for Limb {
+    open spec fn obeys_shr_assign_spec() -> bool { true }
+    open spec fn shr_assign_req(&self, rhs: i32) -> bool { 0 <= rhs < 64 }
+    open spec fn shr_assign_spec(&self, rhs: i32) -> &Limb { &Limb(self.0 >> (rhs as u32)) }
+}
+impl ShrAssign<i32> for Limb {
+    fn shr_assign(&mut self, shift: i32)
+    { *self = *self >> shift; }
+}
 
 // ------------------------------------------------------------------------------------------------
 // vocabulary
@@ -89,6 +184,15 @@ pub open spec fn nlimbs_for(bits: u32) -> nat {
     if bits == 0 { 1 } else { ((bits as int + 63) / 64) as nat }
 }
 pub open spec fn max_nat(a: nat, b: nat) -> nat { if a >= b { a } else { b } }
+/// s zero-extended to n limbs (operands of different precisions are compared / combined as zero-padded values)
+pub open spec fn zext(s: Seq<Limb>, n: nat) -> Seq<Limb> { Seq::new(n, |k: int| if k < s.len() { s[k] } else { Limb(0) }) }
+pub proof fn lemma_zext(s: Seq<Limb>, n: nat)
+    requires s.len() <= n
+    ensures val(zext(s, n), n) == val(s, s.len())
+{
+    lemma_val_ext(zext(s, n), s, s.len());
+    lemma_val_hi_zero(zext(s, n), s.len(), n);
+}
 
 proof fn lemma_rng(x: &BoxedUint)
     ensures 0 <= x.v() < bp(x.nl()), bp(x.nl()) > 0
@@ -144,6 +248,23 @@ impl ConditionallySelectable for u32 {
     open spec fn sel_ok(a: u32, b: u32, c: Choice, r: u32) -> bool { c.wf() ==> r == (if c.t() { b } else { a }) }
     #[verifier::external_body]
     fn conditional_select(a: &u32, b: &u32, choice: Choice) -> (r: u32)
+    { if choice.0 == 1 { *b } else { *a } }
+}
+// subtle: `impl BitAndAssign for Choice { fn bitand_assign(&mut self, rhs: Choice) { *self = *self & rhs; } }` (body verified against `BitAnd for Choice`)
+impl vstd::std_specs::ops::BitAndAssignSpecImpl<Choice> for Choice {
+    open spec fn obeys_bitand_assign_spec() -> bool { true }
+    open spec fn bitand_assign_req(&self, rhs: Choice) -> bool { true }
+    open spec fn bitand_assign_spec(&self, rhs: Choice) -> &Choice { &choice_and(*self, rhs) }
+}
+impl core::ops::BitAndAssign for Choice {
+    fn bitand_assign(&mut self, rhs: Choice)
+    { *self = *self & rhs; }
+}
+// subtle: `impl ConditionallySelectable for cmp::Ordering` (select on the `#[repr(i8)]` discriminant, cast back through a raw pointer)
+impl ConditionallySelectable for Ordering {
+    open spec fn sel_ok(a: Ordering, b: Ordering, c: Choice, r: Ordering) -> bool { c.wf() ==> r == (if c.t() { b } else { a }) }
+    #[verifier::external_body]
+    fn conditional_select(a: &Ordering, b: &Ordering, choice: Choice) -> (r: Ordering)
     { if choice.0 == 1 { *b } else { *a } }
 }
 /// subtle: `trait ConstantTimeGreater { fn ct_gt(&self, other: &Self) -> Choice; }` (+ `*_req` / `*_ens`, see l7_traits.rs)
@@ -623,17 +744,32 @@ pub fn bits_precision(&self) -> (ret__: u32)
     }
 }
 //@@ end
-//@@ fn src/uint/boxed.rs | impl BoxedUint | zero_with_precision | stub | props C15 C11
+//@@ fn src/uint/boxed.rs | impl BoxedUint | limbs_for_precision | body | props C15 C11
 impl BoxedUint {
-#[verifier::external_body]
+pub fn limbs_for_precision(at_least_bits_precision: u32) -> (ret__: usize)
+//@+
+    ensures ret__ as int == (at_least_bits_precision as int + 63) / 64
+//@-
+{
+        at_least_bits_precision.div_ceil(Limb::BITS) as usize
+    }
+}
+//@@ end
+//@@ fn src/uint/boxed.rs | impl BoxedUint | zero_with_precision | body | props C15 C11
+impl BoxedUint {
 pub fn zero_with_precision(at_least_bits_precision: u32) -> (ret__: Self)
 //@+
     ensures ret__.nl() == nlimbs_for(at_least_bits_precision), ret__.v() == 0,
         forall|k: int| 0 <= k < ret__.limbs@.len() ==> ret__.limbs@[k].0 == 0
 //@-
 {
-    unimplemented!()
-}
+//@+
+    proof {
+        assert forall|s: Seq<Limb>| (forall|k: int| 0 <= k < s.len() ==> s[k].0 == 0) implies #[trigger] val(s, s.len()) == 0 by { lemma_val_zero(s, s.len()); }
+    }
+//@-
+        vec![Limb::ZERO; Self::limbs_for_precision(at_least_bits_precision)].into()
+    }
 }
 //@@ end
 //@@ fn src/uint/boxed.rs | impl BoxedUint | one_with_precision | body | props C15 C11
@@ -652,16 +788,50 @@ pub fn one_with_precision(at_least_bits_precision: u32) -> (ret__: Self)
     }
 }
 //@@ end
-//@@ fn src/uint/boxed.rs | impl BoxedUint | is_zero | stub | props C06 C11
+/// accumulator chain of `is_zero`: acc_k = acc_{k-1} & (limb_{k-1} == 0), acc_0 = 1
+spec fn zchain(accs: Seq<Choice>, s: Seq<Limb>) -> bool {
+    accs.len() == s.len() + 1 && accs[0] == Choice(1)
+        && forall|k: int| 1 <= k < accs.len() ==> (accs[k - 1].wf() ==> (#[trigger] accs[k]).wf() && accs[k].t() == (accs[k - 1].t() && s[k - 1].0 == 0))
+}
+proof fn lemma_zchain(accs: Seq<Choice>, s: Seq<Limb>, j: nat)
+    requires zchain(accs, s), j <= s.len()
+    ensures accs[j as int].wf(), accs[j as int].t() == (val(s, j) == 0)
+    decreases j
+{
+    lemma_val_zero_iff(s, j);
+    if j > 0 {
+        lemma_zchain(accs, s, (j - 1) as nat);
+        lemma_val_zero_iff(s, (j - 1) as nat);
+        assert(accs[j as int].t() == (accs[j - 1].t() && s[j - 1].0 == 0));
+    }
+}
+//@@ fn src/uint/boxed.rs | impl BoxedUint | is_zero | body | props C06 C11
 impl BoxedUint {
-#[verifier::external_body]
 pub fn is_zero(&self) -> (ret__: Choice)
 //@+
     ensures ret__.wf(), ret__.t() == (self.v() == 0)
 //@-
 {
-    unimplemented!()
-}
+//@+
+    proof {
+        assert forall|accs: Seq<Choice>| zchain(accs, self.limbs@) implies (#[trigger] accs[accs.len() - 1]).wf() && accs[accs.len() - 1].t() == (self.v() == 0) by {
+            lemma_zchain(accs, self.limbs@, self.limbs@.len());
+        }
+    }
+//@-
+        self.limbs
+            .iter()
+            .fold(Choice::from(1), |acc, limb|
+//@+
+    -> (r: Choice) ensures acc.wf() ==> r.wf() && r.t() == (acc.t() && limb.0 == 0)
+//@-
+{
+//@+
+    proof { assert forall|z: Choice| acc.wf() && z.wf() implies #[trigger] choice_and(acc, z).wf() && choice_and(acc, z).t() == (acc.t() && z.t()) by { lemma_choice_ops(acc, z); } }
+//@-
+acc & limb.is_zero()
+})
+    }
 }
 //@@ end
 //@@ fn src/uint/boxed.rs | impl BoxedUint | is_nonzero | body | props C06 C11
@@ -718,9 +888,133 @@ pub fn bits_vartime(&self) -> (ret__: u32)
     }
 }
 //@@ end
-//@@ fn src/uint/boxed/shl.rs | impl BoxedUint | overflowing_shl_assign | stub | props C05 C11
+//@@ fn src/uint/boxed.rs | impl BoxedUint | conditional_set_zero | body | props C05 C11
 impl BoxedUint {
-#[verifier::external_body]
+pub fn conditional_set_zero(&mut self, choice: Choice)
+//@+
+    requires choice.wf()
+    ensures final(self).limbs@.len() == old(self).limbs@.len(),
+        choice.t() ==> final(self).v() == 0 && forall|k: int| 0 <= k < final(self).limbs@.len() ==> final(self).limbs@[k].0 == 0,
+        !choice.t() ==> final(self).limbs@ == old(self).limbs@
+//@-
+{
+//@+
+    let ghost s0 = self.limbs@; let ghost n = self.limbs@.len();
+//@-
+        let nlimbs = self.nlimbs();
+        let limbs = self.limbs.as_mut();
+        for i in 0..nlimbs
+//@+
+    invariant limbs@.len() == n, s0.len() == n, nlimbs == n, choice.wf(), VERUS_ghost_iter.iter.end == n,
+        forall|k: int| 0 <= k < VERUS_ghost_iter.index@ ==> limbs@[k] == (if choice.t() { Limb(0) } else { s0[k] }),
+        forall|k: int| VERUS_ghost_iter.index@ <= k < n ==> limbs@[k] == s0[k],
+//@-
+{
+            limbs[i] = Limb::conditional_select(&limbs[i], &Limb::ZERO, choice);
+        }
+//@+
+    proof {
+        if choice.t() { lemma_val_zero(self.limbs@, n); } else { assert(self.limbs@ =~= s0); }
+    }
+//@-
+    }
+}
+//@@ end
+//@@ fn src/uint/boxed/shl.rs | impl BoxedUint | shl_vartime_into | body | props C05 C11
+impl BoxedUint {
+pub fn shl_vartime_into(&self, dest: &mut Self, shift: u32) -> (ret__: Option<()>)
+//@+
+    // WARNING of /repo ("`dest` is assumed to be pre-zeroized") = the third precondition
+    requires self.wf(), old(dest).limbs@.len() == self.limbs@.len(), forall|k: int| 0 <= k < old(dest).limbs@.len() ==> old(dest).limbs@[k].0 == 0
+    ensures final(dest).limbs@.len() == self.limbs@.len(), (ret__ is None) == (shift as int >= 64 * self.nl()),
+        (shift as int) < 64 * self.nl() ==> final(dest).v() == (self.v() * p2(shift as nat)) % bp(self.nl()),
+        shift as int >= 64 * self.nl() ==> final(dest).limbs@ == old(dest).limbs@
+//@-
+{
+        if shift >= self.bits_precision() {
+            return None;
+        }
+        let nlimbs = self.nlimbs();
+        let shift_num = (shift / Limb::BITS) as usize;
+        let rem = shift % Limb::BITS;
+//@+
+    let ghost n = self.limbs@.len(); let ghost sn = shift_num as nat; let ghost m = (n - sn) as nat;
+    proof {
+        assert(shift_num as int == shift as int / 64 && rem as int == shift as int % 64);
+        lemma_fundamental_div_mod(shift as int, 64);
+        assert(sn < n);
+    }
+//@-
+        for i in shift_num..nlimbs
+//@+
+    invariant dest.limbs@.len() == n, self.limbs@.len() == n, sn == shift_num, sn < n, nlimbs == n, VERUS_ghost_iter.iter.end == n,
+        i == VERUS_ghost_iter.index@ + shift_num,
+        forall|j: int| 0 <= j < sn ==> dest.limbs@[j].0 == 0,
+        forall|j: int| sn <= j < i ==> dest.limbs@[j] == self.limbs@[j - sn],
+        forall|j: int| i <= j < n ==> dest.limbs@[j].0 == 0,
+//@-
+{
+            dest.limbs[i] = self.limbs[i - shift_num];
+        }
+//@+
+    let ghost p1 = dest.limbs@;
+    proof {
+        lemma_shift_up(self.limbs@, p1, sn, m);
+        assert((sn + m) as nat == n);
+        if rem == 0 {
+            assert(shift as nat == 64 * sn);
+            lemma_shl_rem0(self.limbs@, p1, n, sn, shift as nat);
+        }
+    }
+//@-
+        if rem == 0 {
+            return Some(());
+        }
+        let mut carry = Limb::ZERO;
+        for i in shift_num..nlimbs
+//@+
+    invariant dest.limbs@.len() == n, self.limbs@.len() == n, sn == shift_num, sn < n, nlimbs == n, m == n - sn, 0 < rem < 64, VERUS_ghost_iter.iter.end == n,
+        i == VERUS_ghost_iter.index@ + shift_num,
+        forall|j: int| 0 <= j < sn ==> dest.limbs@[j].0 == 0,
+        forall|j: int| i <= j < n ==> dest.limbs@[j] == self.limbs@[j - sn],
+        i > sn ==> dest.limbs@[sn as int].0 == self.limbs@[0].0 << rem,
+        forall|j: int| sn < j < i ==> dest.limbs@[j].0 == (self.limbs@[j - sn].0 << rem) | (self.limbs@[j - sn - 1].0 >> ((64 - rem) as u32)),
+        carry.0 == (if i == sn { 0u64 } else { self.limbs@[i - sn - 1].0 >> ((64 - rem) as u32) }),
+//@-
+{
+            let shifted = dest.limbs[i].shl(rem);
+            let new_carry = dest.limbs[i].shr(Limb::BITS - rem);
+            dest.limbs[i] = shifted.bitor(carry);
+            carry = new_carry;
+//@+
+    proof {
+        let x = self.limbs@[i - sn].0; let y = x << rem;
+        lemma_u64_shl_mod(x, rem); lemma_u64_shr_div(x, (64 - rem) as u32);
+        assert(y | 0u64 == y) by (bit_vector);
+    }
+//@-
+        }
+//@+
+    proof {
+        let s = self.limbs@; let d = dest.limbs@;
+        let tt = Seq::new(m, |j: int| d[j + sn]);
+        lemma_shl_limbs(s, tt, m, rem);
+        lemma_shift_up(tt, d, sn, m);
+        assert((sn + m) as nat == n);
+        lemma_bp_add(m, sn);
+        let c = (s[m - 1].0 >> ((64 - rem) as u32)) as int;
+        assert(val(d, n) + c * bp(n) == val(s, m) * bp(sn) * p2(rem as nat)) by (nonlinear_arith)
+            requires val(tt, m) + c * bp(m) == val(s, m) * p2(rem as nat), val(d, n) == val(tt, m) * bp(sn), bp(n) == bp(m) * bp(sn);
+        lemma_val_bound(d, n);
+        lemma_shl_finish(s, val(d, n), c, n, sn, rem as nat, shift as nat);
+    }
+//@-
+        Some(())
+    }
+}
+//@@ end
+//@@ fn src/uint/boxed/shl.rs | impl BoxedUint | overflowing_shl_assign | body | props C05 C11
+impl BoxedUint {
 pub fn overflowing_shl_assign(&mut self, shift: u32) -> (ret__: Choice)
 //@+
     requires old(self).wf()
@@ -728,8 +1022,84 @@ pub fn overflowing_shl_assign(&mut self, shift: u32) -> (ret__: Choice)
         final(self).v() == (if shift as int >= 64 * old(self).nl() { 0 } else { (old(self).v() * p2(shift as nat)) % bp(old(self).nl()) })
 //@-
 {
-    unimplemented!()
-}
+        // `floor(log2(bits_precision - 1))` is the number of bits in the representation of `shift`
+        // (which lies in range `0 <= shift < bits_precision`).
+//@+
+    let ghost n = self.limbs@.len(); let ghost v0 = self.v(); let ghost shift0 = shift;
+    proof { lemma_lz32((64 * n - 1) as u32); }
+//@-
+        let shift_bits = u32::BITS - (self.bits_precision() - 1).leading_zeros();
+        let overflow = !shift.ct_lt(&self.bits_precision());
+        let shift = shift % self.bits_precision();
+        let mut temp = self.clone();
+//@+
+    proof {
+        lemma_pow2_64(); lemma_bp_succ(n); lemma_val_bound(self.limbs@, n);
+        assert((shift as int) % 1 == 0);
+        lemma_small_mod(v0 as nat, bp(n) as nat); assert(v0 * 1 == v0);
+        if (shift0 as int) < 64 * n { lemma_small_mod(shift0 as nat, (64 * n) as nat); }
+        lemma_mod_bound(shift0 as int, 64 * (n as int));
+        let lt = Choice(if (shift0 as int) < 64 * n { 1u8 } else { 0u8 }); lemma_choice_ops(lt, lt);
+    }
+//@-
+        for i in 0..shift_bits
+//@+
+    invariant self.limbs@.len() == n, temp.limbs@.len() == n, 1 <= n < 0x400_0000, (shift as int) < 64 * n, 1 <= shift_bits <= 32,
+        VERUS_ghost_iter.iter.end == shift_bits, p2((shift_bits - 1) as nat) <= 64 * n - 1, 0 <= v0 < bp(n),
+        self.v() == (v0 * p2(((shift as int) % p2(VERUS_ghost_iter.index@ as nat)) as nat)) % bp(n),
+//@-
+{
+//@+
+    let ghost lo = (shift as int) % p2(i as nat);
+    proof {
+        lemma_ladder_step(shift, i);
+        if i < shift_bits - 1 { lemma_pow2_strictly_increases(i as nat, (shift_bits - 1) as nat); }
+        lemma_pow2_pos(i as nat); lemma_mod_bound(shift as int, p2(i as nat));
+        lemma_shl_compose(v0, lo as nat, p2(i as nat) as nat, bp(n));
+    }
+//@-
+            let bit = Choice::from(((shift >> i) & 1) as u8);
+//@+
+    let ghost sb = self.limbs@;
+//@-
+            temp.set_zero();
+            // Will not overflow by construction
+            self.shl_vartime_into(&mut temp, 1 << i)
+                .expect("shift within range");
+            self.ct_assign(&temp, bit);
+//@+
+    proof {
+        let b = (shift >> i) & 1u32;
+        assert(bit.0 == b as u8 && b <= 1);
+        assert(bit.wf() && bit.t() == (b == 1));
+        assert(((1u32 << i) as nat) == p2(i as nat) as nat);
+        if b == 1 {
+            assert(self.limbs@ == temp.limbs@);
+            lemma_val_bound(sb, n);
+            assert(self.v() == (val(sb, n) * p2(p2(i as nat) as nat)) % bp(n));
+            assert(b as int * p2(i as nat) == p2(i as nat)) by (nonlinear_arith) requires b == 1;
+            assert((shift as int) % p2((i + 1) as nat) == lo + p2(i as nat));
+            assert(((lo as nat) + (p2(i as nat) as nat)) as nat == (lo + p2(i as nat)) as nat);
+        } else {
+            assert(b == 0);
+            assert(self.limbs@ == sb);
+            assert(b as int * p2(i as nat) == 0) by (nonlinear_arith) requires b == 0;
+            assert((shift as int) % p2((i + 1) as nat) == lo);
+        }
+    }
+//@-
+        }
+        #[cfg(feature = "zeroize")]
+        zeroize::Zeroize::zeroize(&mut temp);
+//@+
+    proof {
+        assert((shift as int) < p2(shift_bits as nat));
+        lemma_small_mod(shift as nat, p2(shift_bits as nat) as nat);
+    }
+//@-
+        self.conditional_set_zero(overflow);
+        overflow
+    }
 }
 //@@ end
 //@@ fn src/uint/boxed/shl.rs | impl BoxedUint | overflowing_shl | body | props C05 C11 C15
@@ -747,9 +1117,101 @@ pub fn overflowing_shl(&self, shift: u32) -> (ret__: (Self, Choice))
     }
 }
 //@@ end
-//@@ fn src/uint/boxed/add.rs | impl BoxedUint | adc | stub | props C04 C11 C15
+/// carry chain of `adc` over the zero-extended operands (fold_limbs with `|a, b, c| a.adc(b, c)`)
+spec fn adc_chain(ea: Seq<Limb>, eb: Seq<Limb>, r: Seq<Limb>, cs: Seq<Limb>, n: nat) -> bool {
+    cs.len() == n + 1 && forall|k: int| 1 <= k <= n ==> (r[k - 1].0 as int + (#[trigger] cs[k]).0 as int * B() == ea[k - 1].0 as int + eb[k - 1].0 as int + cs[k - 1].0 as int
+        && (cs[k - 1].0 <= 1 ==> cs[k].0 <= 1))
+}
+proof fn lemma_adc_chain(ea: Seq<Limb>, eb: Seq<Limb>, r: Seq<Limb>, cs: Seq<Limb>, n: nat, j: nat)
+    requires adc_chain(ea, eb, r, cs, n), j <= n
+    ensures val(r, j) + cs[j as int].0 as int * bp(j) == val(ea, j) + val(eb, j) + cs[0].0 as int, cs[0].0 <= 1 ==> cs[j as int].0 <= 1
+    decreases j
+{
+    lemma_bp_succ(0);
+    if j == 0 {
+        assert(cs[0].0 as int * bp(0) == cs[0].0 as int) by (nonlinear_arith) requires bp(0) == 1;
+    } else {
+        let i = (j - 1) as nat;
+        lemma_adc_chain(ea, eb, r, cs, n, i);
+        lemma_bp_succ(i);
+        let pk = bp(i); let x = r[i as int].0 as int; let c1 = cs[j as int].0 as int; let cb = cs[i as int].0 as int;
+        let a = ea[i as int].0 as int; let b = eb[i as int].0 as int;
+        assert(x + (cs[j as int]).0 as int * B() == a + b + cb);
+        assert(x * pk + c1 * (B() * pk) == a * pk + b * pk + cb * pk) by (nonlinear_arith) requires x + c1 * B() == a + b + cb;
+    }
+}
+/// borrow chain of `sbb` (fold_limbs with `|a, b, c| a.sbb(b, c)`): every produced borrow is a mask, only its top bit is consumed
+spec fn sbb_chain(ea: Seq<Limb>, eb: Seq<Limb>, r: Seq<Limb>, cs: Seq<Limb>, n: nat) -> bool {
+    cs.len() == n + 1 && forall|k: int| 1 <= k <= n ==> (((#[trigger] cs[k]).0 == 0 || cs[k].0 == u64::MAX)
+        && r[k - 1].0 as int - bb(cs[k]) * B() == ea[k - 1].0 as int - eb[k - 1].0 as int - (cs[k - 1].0 >> 63) as int)
+}
+proof fn lemma_sbb_chain(ea: Seq<Limb>, eb: Seq<Limb>, r: Seq<Limb>, cs: Seq<Limb>, n: nat, j: nat)
+    requires sbb_chain(ea, eb, r, cs, n), j <= n
+    ensures val(r, j) - (cs[j as int].0 >> 63) as int * bp(j) == val(ea, j) - val(eb, j) - (cs[0].0 >> 63) as int,
+        j >= 1 ==> (cs[j as int].0 == 0 || cs[j as int].0 == u64::MAX) && (cs[j as int].0 >> 63) as int == bb(cs[j as int])
+    decreases j
+{
+    lemma_bp_succ(0);
+    if j == 0 {
+        assert((cs[0].0 >> 63) as int * bp(0) == (cs[0].0 >> 63) as int) by (nonlinear_arith) requires bp(0) == 1;
+    } else {
+        let i = (j - 1) as nat;
+        lemma_sbb_chain(ea, eb, r, cs, n, i);
+        lemma_bp_succ(i);
+        let pk = bp(i); let x = r[i as int].0 as int; let bin = (cs[i as int].0 >> 63) as int; let bw = cs[j as int].0;
+        let a = ea[i as int].0 as int; let b = eb[i as int].0 as int;
+        assert(cs[j as int].0 == 0 || cs[j as int].0 == u64::MAX);
+        assert(bw >> 63 == (if bw == 0xffff_ffff_ffff_ffffu64 { 1u64 } else { 0u64 })) by (bit_vector) requires bw == 0 || bw == 0xffff_ffff_ffff_ffffu64;
+        let bo = bb(cs[j as int]);
+        assert(x - bo * B() == a - b - bin);
+        assert(x * pk - bo * (B() * pk) == a * pk - b * pk - bin * pk) by (nonlinear_arith) requires x - bo * B() == a - b - bin;
+    }
+}
+//@@ fn src/uint/boxed.rs | impl BoxedUint | fold_limbs | stub | props C04 C11 C15
 impl BoxedUint {
 #[verifier::external_body]
+pub fn fold_limbs<F>(lhs: &Self, rhs: &Self, mut carry: Limb, f: F) -> (ret__: (Self, Limb))
+where
+        F: Fn(Limb, Limb, Limb) -> (Limb, Limb),
+//@+
+    // ASSUMED (not a body: `let &a = lhs.limbs.get(i).unwrap_or(&Limb::ZERO);` -- Verus: "ref patterns" unsupported). Read off the code:
+    // n = max(len, len) rounds over the zero-extended operands, round k maps (a_k, b_k, c_k) to (limb_k, c_{k+1}) by `f`, c_0 = carry;
+    // the collected limbs go through `From<Vec<Limb>>` (an empty vector becomes the one-limb zero).
+    requires forall|a: Limb, b: Limb, c: Limb| #[trigger] f.requires((a, b, c))
+    ensures ({
+        let n = max_nat(lhs.limbs@.len(), rhs.limbs@.len());
+        exists|cs: Seq<Limb>| #[trigger] cs.len() == n + 1 && cs[0] == carry && cs[n as int] == ret__.1
+            && ret__.0.limbs@.len() == (if n == 0 { 1nat } else { n }) && (n == 0 ==> ret__.0.limbs@[0] == Limb(0))
+            && forall|k: int| 1 <= k <= n ==> f.ensures((zext(lhs.limbs@, n)[k - 1], zext(rhs.limbs@, n)[k - 1], cs[k - 1]), (ret__.0.limbs@[k - 1], #[trigger] cs[k]))
+    })
+//@-
+{
+    unimplemented!()
+}
+}
+//@@ end
+//@@ fn src/uint/boxed.rs | impl BoxedUint | map_limbs | stub | props C05 C11 C15
+impl BoxedUint {
+#[verifier::external_body]
+pub fn map_limbs<F>(lhs: &Self, rhs: &Self, f: F) -> (ret__: Self)
+where
+        F: Fn(Limb, Limb) -> Limb,
+//@+
+    // ASSUMED (same `let &a = ..` ref patterns as fold_limbs): limb k of the result is f(a_k, b_k) over the zero-extended operands
+    requires forall|a: Limb, b: Limb| #[trigger] f.requires((a, b))
+    ensures ({
+        let n = max_nat(lhs.limbs@.len(), rhs.limbs@.len());
+        ret__.limbs@.len() == (if n == 0 { 1nat } else { n }) && (n == 0 ==> ret__.limbs@[0] == Limb(0))
+            && forall|k: int| 0 <= k < n ==> f.ensures((zext(lhs.limbs@, n)[k], zext(rhs.limbs@, n)[k]), #[trigger] ret__.limbs@[k])
+    })
+//@-
+{
+    unimplemented!()
+}
+}
+//@@ end
+//@@ fn src/uint/boxed/add.rs | impl BoxedUint | adc | body | props C04 C11 C15
+impl BoxedUint {
 pub fn adc(&self, rhs: &Self, carry: Limb) -> (ret__: (Self, Limb))
 //@+
     requires self.nl() >= 1 || rhs.nl() >= 1
@@ -759,8 +1221,27 @@ pub fn adc(&self, rhs: &Self, carry: Limb) -> (ret__: (Self, Limb))
         carry.0 <= 1 ==> ret__.1.0 <= 1
 //@-
 {
-    unimplemented!()
-}
+//@+
+    let ghost n = max_nat(self.limbs@.len(), rhs.limbs@.len()); let ghost ea = zext(self.limbs@, n); let ghost eb = zext(rhs.limbs@, n);
+    proof {
+        lemma_zext(self.limbs@, n); lemma_zext(rhs.limbs@, n);
+        assert forall|r: BoxedUint, cs: Seq<Limb>| #![trigger r.limbs@.len(), cs.len()] r.limbs@.len() == n && adc_chain(ea, eb, r.limbs@, cs, n) && cs[0] == carry implies
+            r.v() + cs[n as int].0 as int * bp(n) == self.v() + rhs.v() + carry.0 as int
+            && r.v() == (self.v() + rhs.v() + carry.0 as int) % bp(n) && (carry.0 <= 1 ==> cs[n as int].0 <= 1) by {
+            lemma_adc_chain(ea, eb, r.limbs@, cs, n, n);
+            lemma_val_bound(r.limbs@, n);
+            lemma_fundamental_div_mod_converse(self.v() + rhs.v() + carry.0 as int, bp(n), cs[n as int].0 as int, r.v());
+        }
+    }
+//@-
+        Self::fold_limbs(self, rhs, carry, |a, b, c|
+//@+
+    -> (r: (Limb, Limb)) ensures r.0.0 as int + r.1.0 as int * B() == a.0 as int + b.0 as int + c.0 as int, c.0 <= 1 ==> r.1.0 <= 1
+//@-
+{
+a.adc(b, c)
+})
+    }
 }
 //@@ end
 //@@ fn src/uint/boxed/add.rs | impl BoxedUint | wrapping_add | body | props C04 C11 C15
@@ -775,6 +1256,62 @@ pub fn wrapping_add(&self, rhs: &Self) -> (ret__: Self)
     proof { lemma_rng(self); lemma_rng(rhs); }
 //@-
         self.adc(rhs, Limb::ZERO).0
+    }
+}
+//@@ end
+//@@ fn src/uint/boxed/neg.rs | impl BoxedUint | wrapping_neg | body | props C04 C11 C15
+impl BoxedUint {
+pub fn wrapping_neg(&self) -> (ret__: Self)
+//@+
+    requires self.nl() >= 1
+    ensures ret__.nl() == self.nl(), ret__.v() == (bp(self.nl()) - self.v()) % bp(self.nl()),
+        ret__.v() == (if self.v() == 0 { 0 } else { bp(self.nl()) - self.v() })
+//@-
+{
+//@+
+    let ghost n = self.limbs@.len();
+//@-
+        let mut ret = vec![Limb::ZERO; self.nlimbs()];
+        let mut carry = 1;
+//@+
+    proof { lemma_bp_succ(0); assert(carry as int * bp(0) == 1) by (nonlinear_arith) requires carry == 1, bp(0) == 1; }
+//@-
+        for i in 0..self.nlimbs()
+//@+
+    invariant ret@.len() == n, self.limbs@.len() == n, carry <= 1, VERUS_ghost_iter.iter.end == n,
+        val(ret@, VERUS_ghost_iter.index@ as nat) + carry as int * bp(VERUS_ghost_iter.index@ as nat) == bp(VERUS_ghost_iter.index@ as nat) - val(self.limbs@, VERUS_ghost_iter.index@ as nat),
+//@-
+{
+//@+
+    let ghost rb = ret@; let ghost cb = carry;
+//@-
+            let r = (!self.limbs[i].0 as WideWord) + carry;
+            ret[i] = Limb(r as Word);
+            carry = r >> Limb::BITS;
+//@+
+    proof {
+        let x = self.limbs@[i as int].0; let w = ret@[i as int].0; let c1 = carry;
+        assert((!x) as int == 0xffff_ffff_ffff_ffff - x as int) by (bit_vector);
+        assert((r as u64) as int + (r >> 64u32) as int * 0x1_0000_0000_0000_0000 == r as int) by (bit_vector) requires r <= 0x1_0000_0000_0000_0000;
+        assert(r >> 64u32 <= 1) by (bit_vector) requires r <= 0x1_0000_0000_0000_0000;
+        lemma_val_ext(rb, ret@, i as nat);
+        lemma_bp_succ(i as nat);
+        let pk = bp(i as nat);
+        assert(w as int * pk + c1 as int * (B() * pk) == (B() - 1 - x as int) * pk + cb as int * pk) by (nonlinear_arith)
+            requires w as int + c1 as int * B() == B() - 1 - x as int + cb as int;
+        assert((B() - 1 - x as int) * pk == B() * pk - pk - x as int * pk) by (nonlinear_arith);
+    }
+//@-
+        }
+//@+
+    proof {
+        lemma_val_bound(ret@, n); lemma_val_bound(self.limbs@, n);
+        lemma_fundamental_div_mod_converse(bp(n) - self.v(), bp(n), carry as int, val(ret@, n));
+        if self.v() == 0 { assert(carry == 1) by (nonlinear_arith) requires val(ret@, n) + carry as int * bp(n) == bp(n), 0 <= val(ret@, n) < bp(n), carry <= 1; }
+        else { assert(carry == 0) by (nonlinear_arith) requires val(ret@, n) + carry as int * bp(n) < bp(n), 0 <= val(ret@, n), carry <= 1, bp(n) > 0; }
+    }
+//@-
+        ret.into()
     }
 }
 //@@ end
@@ -866,32 +1403,117 @@ pub fn conditional_adc_assign(&mut self, rhs: &Self, choice: Choice) -> (ret__: 
     }
 }
 //@@ end
-//@@ fn src/uint/boxed/sub.rs | impl BoxedUint | sbb | stub | props C04 C11 C15
+//@@ fn src/uint/boxed/sub.rs | impl BoxedUint | sbb | body | props C04 C11 C15
 impl BoxedUint {
-#[verifier::external_body]
 pub fn sbb(&self, rhs: &Self, borrow: Limb) -> (ret__: (Self, Limb))
 //@+
-    requires self.nl() >= 1 || rhs.nl() >= 1
-    ensures ret__.0.nl() == max_nat(self.nl(), rhs.nl()), ret__.1.0 == 0 || ret__.1.0 == u64::MAX,
-        ret__.0.v() - bb(ret__.1) * bp(ret__.0.nl()) == self.v() - rhs.v() - (borrow.0 >> 63) as int,
-        ret__.0.v() == (self.v() - rhs.v() - (borrow.0 >> 63) as int) % bp(ret__.0.nl())
+    // total: two EMPTY operands give the one-limb zero (`From<Vec<Limb>>`) and hand `borrow` back unchanged
+    ensures ret__.0.nl() == max_nat(max_nat(self.nl(), rhs.nl()), 1),
+        (self.nl() >= 1 || rhs.nl() >= 1) ==> (ret__.1.0 == 0 || ret__.1.0 == u64::MAX)
+            && ret__.0.v() - bb(ret__.1) * bp(ret__.0.nl()) == self.v() - rhs.v() - (borrow.0 >> 63) as int
+            && ret__.0.v() == (self.v() - rhs.v() - (borrow.0 >> 63) as int) % bp(ret__.0.nl()),
+        (self.nl() == 0 && rhs.nl() == 0) ==> ret__.0.v() == 0 && ret__.1 == borrow
 //@-
 {
-    unimplemented!()
-}
+//@+
+    let ghost n = max_nat(self.limbs@.len(), rhs.limbs@.len()); let ghost ea = zext(self.limbs@, n); let ghost eb = zext(rhs.limbs@, n);
+    proof {
+        lemma_zext(self.limbs@, n); lemma_zext(rhs.limbs@, n);
+        assert forall|s: Seq<Limb>| s.len() == 1 && s[0].0 == 0 implies #[trigger] val(s, s.len()) == 0 by { lemma_val_single(s, 1); }
+        assert forall|r: BoxedUint, cs: Seq<Limb>| #![trigger r.limbs@.len(), cs.len()] n >= 1 && r.limbs@.len() == n && sbb_chain(ea, eb, r.limbs@, cs, n) && cs[0] == borrow implies
+            (cs[n as int].0 == 0 || cs[n as int].0 == u64::MAX)
+            && r.v() - bb(cs[n as int]) * bp(n) == self.v() - rhs.v() - (borrow.0 >> 63) as int
+            && r.v() == (self.v() - rhs.v() - (borrow.0 >> 63) as int) % bp(n) by {
+            lemma_sbb_chain(ea, eb, r.limbs@, cs, n, n);
+            lemma_val_bound(r.limbs@, n);
+            let bo = bb(cs[n as int]);
+            assert((-bo) * bp(n) == -(bo * bp(n))) by (nonlinear_arith);
+            lemma_fundamental_div_mod_converse(self.v() - rhs.v() - (borrow.0 >> 63) as int, bp(n), -bo, r.v());
+        }
+    }
+//@-
+        Self::fold_limbs(self, rhs, borrow, |a, b, c|
+//@+
+    -> (r: (Limb, Limb)) ensures r.1.0 == 0 || r.1.0 == u64::MAX, r.0.0 as int - bb(r.1) * B() == a.0 as int - b.0 as int - (c.0 >> 63) as int
+//@-
+{
+a.sbb(b, c)
+})
+    }
 }
 //@@ end
-//@@ fn src/uint/boxed/shr.rs | impl BoxedUint | shr1_assign | stub | props C05 C11
+/// one round of `shr1_assign`: limb i-1 receives the low bit of limb i (as bit 63), limb i is halved
+proof fn lemma_shr1_step(sb: Seq<Limb>, sa: Seq<Limb>, s0: Seq<Limb>, i: nat)
+    requires i >= 1, forall|k: int| 0 <= k < i - 1 ==> sa[k] == sb[k],
+        sa[i - 1].0 as int == sb[i - 1].0 as int + (s0[i as int].0 & 1) as int * 0x8000_0000_0000_0000,
+        2 * (sa[i as int].0 as int) + (s0[i as int].0 & 1) as int == s0[i as int].0 as int,
+        2 * val(sb, i) + (s0[0].0 & 1) as int == val(s0, i),
+    ensures 2 * val(sa, i + 1) + (s0[0].0 & 1) as int == val(s0, i + 1)
+{
+    let j = (i - 1) as nat;
+    lemma_val_ext(sb, sa, j);
+    lemma_bp_succ(j);
+    let pj = bp(j); let lo = (s0[i as int].0 & 1) as int; let h = sa[i as int].0 as int; let y = s0[i as int].0 as int;
+    assert(val(sa, i) == val(sa, j) + sa[j as int].0 as int * pj);
+    assert(val(sb, i) == val(sb, j) + sb[j as int].0 as int * pj);
+    assert(val(sa, i + 1) == val(sa, i) + h * bp(i));
+    assert(val(s0, i + 1) == val(s0, i) + y * bp(i));
+    assert(bp(i) == B() * pj);
+    assert((sb[j as int].0 as int + lo * 0x8000_0000_0000_0000) * pj == sb[j as int].0 as int * pj + lo * 0x8000_0000_0000_0000 * pj) by (nonlinear_arith);
+    assert(2 * (lo * 0x8000_0000_0000_0000 * pj) + 2 * (h * (B() * pj)) == y * (B() * pj)) by (nonlinear_arith) requires 2 * h + lo == y, B() == 0x1_0000_0000_0000_0000;
+}
+
+//@@ fn src/uint/boxed/shr.rs | impl BoxedUint | shr1_assign | body | props C05 C11
 impl BoxedUint {
-#[verifier::external_body]
 pub fn shr1_assign(&mut self)
 //@+
     requires old(self).nl() >= 1
     ensures final(self).nl() == old(self).nl(), final(self).v() == old(self).v() / 2
 //@-
 {
-    unimplemented!()
-}
+//@+
+    let ghost s0 = self.limbs@; let ghost n = self.limbs@.len();
+//@-
+        self.limbs[0].shr_assign(1);
+//@+
+    proof {
+        let x = s0[0].0;
+        assert(2 * (x >> 1u32) + (x & 1) == x) by (bit_vector);
+        lemma_bp1();
+        assert(val(self.limbs@, 1) == val(self.limbs@, 0) + self.limbs@[0].0 as int * bp(0));
+        assert(val(s0, 1) == val(s0, 0) + s0[0].0 as int * bp(0));
+        assert(self.limbs@[0].0 as int * bp(0) == self.limbs@[0].0 as int) by (nonlinear_arith) requires bp(0) == 1;
+        assert(s0[0].0 as int * bp(0) == s0[0].0 as int) by (nonlinear_arith) requires bp(0) == 1;
+    }
+//@-
+        for i in 1..self.limbs.len()
+//@+
+    invariant self.limbs@.len() == n, s0.len() == n, n >= 1, VERUS_ghost_iter.iter.end == n, i == VERUS_ghost_iter.index@ + 1,
+        forall|k: int| i <= k < n ==> self.limbs@[k] == s0[k],
+        self.limbs@[i - 1].0 == s0[i - 1].0 >> 1u32,
+        2 * val(self.limbs@, i as nat) + (s0[0].0 & 1) as int == val(s0, i as nat),
+//@-
+{
+            // set carry bit
+//@+
+    let ghost sb = self.limbs@;
+//@-
+            self.limbs[i - 1].0 |= (self.limbs[i].0 & 1) << Limb::HI_BIT;
+            self.limbs[i].shr_assign(1);
+//@+
+    proof {
+        let y = s0[i as int].0; let a = sb[i - 1].0; let b = self.limbs@[i - 1].0; let px = s0[i - 1].0;
+        assert(b == a | ((y & 1) << 63u32));
+        assert((a | ((y & 1) << 63u32)) as int == a as int + (y & 1) as int * 0x8000_0000_0000_0000) by (bit_vector) requires a == px >> 1u32;
+        assert(2 * (y >> 1u32) + (y & 1) == y) by (bit_vector);
+        lemma_shr1_step(sb, self.limbs@, s0, i as nat);
+    }
+//@-
+        }
+//@+
+    proof { let x = s0[0].0; assert(x & 1 <= 1) by (bit_vector); }
+//@-
+    }
 }
 //@@ end
 //@@ fn src/uint/boxed/shr.rs | impl BoxedUint | shr1 | body | props C05 C11 C15
@@ -908,36 +1530,109 @@ pub fn shr1(&self) -> (ret__: Self)
     }
 }
 //@@ end
-//@@ fn src/uint/boxed/cmp.rs | impl BoxedUint | cmp_vartime | stub | props C06 C11
+//@@ fn src/uint/boxed/cmp.rs | impl BoxedUint | cmp_vartime | body | props C06 C11
 impl BoxedUint {
-#[verifier::external_body]
 pub fn cmp_vartime(&self, rhs: &Self) -> (ret__: Ordering)
 //@+
-    // not a body: `core::cmp::max` and `Option::<&T>::copied` have no vstd specification
     requires self.nl() >= 1 || rhs.nl() >= 1
     ensures ret__ == (if self.v() < rhs.v() { Ordering::Less } else if self.v() == rhs.v() { Ordering::Equal } else { Ordering::Greater })
 //@-
 {
-    unimplemented!()
-}
+        // operands of different precisions are compared as zero-padded values, like `ct_eq` / `ct_lt`
+//@+
+    let ghost nn = max_nat(self.limbs@.len(), rhs.limbs@.len()); let ghost ea = zext(self.limbs@, nn); let ghost eb = zext(rhs.limbs@, nn);
+    proof {
+        lemma_zext(self.limbs@, nn); lemma_zext(rhs.limbs@, nn);
+        assert(0u64 >> 63 == 0u64) by (bit_vector);
+    }
+//@-
+        let mut i = max(self.limbs.len(), rhs.limbs.len()) - 1;
+        loop
+//@+
+    invariant i < nn, nn == max_nat(self.limbs@.len(), rhs.limbs@.len()), ea == zext(self.limbs@, nn), eb == zext(rhs.limbs@, nn),
+        crate::speclib::val(ea, nn) == self.v(), crate::speclib::val(eb, nn) == rhs.v(), 0u64 >> 63 == 0u64,
+        forall|k: int| i < k < nn ==> ea[k].0 == eb[k].0,
+    decreases i,
+//@-
+{
+            // TODO: investigate if directly comparing limbs is faster than performing a
+            // subtraction between limbs
+            let lhs_limb = self.limbs.get(i).copied().unwrap_or(Limb::ZERO);
+            let rhs_limb = rhs.limbs.get(i).copied().unwrap_or(Limb::ZERO);
+            let (val, borrow) = lhs_limb.sbb(rhs_limb, Limb::ZERO);
+//@+
+    proof {
+        assert(lhs_limb == ea[i as int] && rhs_limb == eb[i as int]);
+        if val.0 != 0 {
+            if borrow.0 != 0 { lemma_val_cmp_top(ea, eb, i as nat, nn); }
+            else {
+                assert forall|k: int| i < k < nn implies eb[k].0 == ea[k].0 by { }
+                lemma_val_cmp_top(eb, ea, i as nat, nn);
+            }
+        } else if i == 0 {
+            assert forall|k: int| 0 <= k < nn implies ea[k] == eb[k] by { }
+            lemma_val_ext(ea, eb, nn);
+        }
+    }
+//@-
+            if val.0 != 0 {
+                return if borrow.0 != 0 {
+                    Ordering::Less
+                } else {
+                    Ordering::Greater
+                };
+            }
+            if i == 0 {
+                return Ordering::Equal;
+            }
+            i -= 1;
+        }
+    }
 }
 //@@ end
-//@@ fn src/uint/boxed/cmp.rs | impl ConstantTimeEq for BoxedUint | ct_eq | stub | props C06 C11
+//@@ fn src/uint/boxed/cmp.rs | impl ConstantTimeEq for BoxedUint | ct_eq | body | props C06 C11
 impl ConstantTimeEq for BoxedUint {
-#[verifier::external_body]
 fn ct_eq(&self, other: &Self) -> (ret__: Choice)
 //@+
     ensures ret__.wf(), ret__.t() == (self.v() == other.v())
 //@-
 {
-    unimplemented!()
-}
+//@+
+    let ghost nn = max_nat(self.limbs@.len(), other.limbs@.len()); let ghost ea = zext(self.limbs@, nn); let ghost eb = zext(other.limbs@, nn);
+    proof { lemma_zext(self.limbs@, nn); lemma_zext(other.limbs@, nn); }
+//@-
+        let limbs = max(self.nlimbs(), other.nlimbs());
+        let mut ret = Choice::from(1u8);
+        for i in 0..limbs
+//@+
+    invariant limbs == nn, nn == max_nat(self.limbs@.len(), other.limbs@.len()), ea == zext(self.limbs@, nn), eb == zext(other.limbs@, nn),
+        VERUS_ghost_iter.iter.end == nn, ret.wf(),
+        ret.t() == (val(ea, VERUS_ghost_iter.index@ as nat) == val(eb, VERUS_ghost_iter.index@ as nat)),
+//@-
+{
+            let a = self.limbs.get(i).unwrap_or(&Limb::ZERO);
+            let b = other.limbs.get(i).unwrap_or(&Limb::ZERO);
+//@+
+    let ghost r0 = ret;
+//@-
+            ret &= a.ct_eq(b);
+//@+
+    proof {
+        let e = Choice(if a.0 == b.0 { 1u8 } else { 0u8 });
+        lemma_choice_ops(r0, e);
+        assert(*a == ea[i as int] && *b == eb[i as int]);
+        lemma_val_eq_iff(ea, eb, i as nat); lemma_val_eq_iff(ea, eb, (i + 1) as nat);
+    }
+//@-
+        }
+        ret
+    }
 }
 //@@ end
 //@@ fn src/uint/boxed/cmp.rs | impl ConstantTimeGreater for BoxedUint | ct_gt | body | props C06 C11
 impl ConstantTimeGreater for BoxedUint {
 //@+
-    open spec fn ct_gt_req(&self, other: &Self) -> bool { self.nl() >= 1 || other.nl() >= 1 }
+    open spec fn ct_gt_req(&self, other: &Self) -> bool { true }
     open spec fn ct_gt_ens(&self, other: &Self, r: Choice) -> bool { r.wf() && r.t() == (self.v() > other.v()) }
 //@-
 fn ct_gt(&self, other: &Self) -> (ret__: Choice)
@@ -955,17 +1650,34 @@ fn ct_gt(&self, other: &Self) -> (ret__: Choice)
     }
 }
 //@@ end
-//@@ fn src/uint/boxed/ct.rs | impl ConstantTimeSelect for BoxedUint | ct_select | stub | props C06 C11 C15
+//@@ fn src/uint/boxed/ct.rs | impl ConstantTimeSelect for BoxedUint | ct_select | body | props C06 C11 C15
 impl ConstantTimeSelect for BoxedUint {
 //@+
     open spec fn ct_select_req(a: &Self, b: &Self, choice: Choice) -> bool { a.limbs@.len() == b.limbs@.len() && a.limbs@.len() < 0x400_0000 && choice.wf() }
     open spec fn ct_select_ens(a: &Self, b: &Self, choice: Choice, r: Self) -> bool { r.limbs@ == (if choice.t() { b.limbs@ } else { a.limbs@ }) }
 //@-
-#[verifier::external_body]
 fn ct_select(a: &Self, b: &Self, choice: Choice) -> (ret__: Self)
 {
-    unimplemented!()
-}
+//@+
+    let ghost n = a.limbs@.len();
+//@-
+        assert_eq!(a.bits_precision(), b.bits_precision());
+        let mut limbs = vec![Limb::ZERO; a.nlimbs()].into_boxed_slice();
+        for i in 0..a.nlimbs()
+//@+
+    invariant limbs@.len() == n, a.limbs@.len() == n, b.limbs@.len() == n, choice.wf(), VERUS_ghost_iter.iter.end == n,
+        forall|k: int| 0 <= k < VERUS_ghost_iter.index@ ==> limbs@[k] == (if choice.t() { b.limbs@[k] } else { a.limbs@[k] }),
+//@-
+{
+            limbs[i] = Limb::conditional_select(&a.limbs[i], &b.limbs[i], choice);
+        }
+//@+
+    proof {
+        if choice.t() { assert(limbs@ =~= b.limbs@); } else { assert(limbs@ =~= a.limbs@); }
+    }
+//@-
+        Self { limbs }
+    }
 }
 //@@ end
 //@@ fn src/uint/boxed.rs | impl Zero for BoxedUint | is_zero | body | props C06 C11
@@ -991,22 +1703,46 @@ fn conditional_select(a: &Self, b: &Self, choice: Choice) -> (ret__: Self)
     }
 }
 //@@ end
-//@@ fn src/uint/boxed/mul.rs | impl BoxedUint | mul | stub | props C03 C11 C15
+//@@ rawconst src/uint/mul/karatsuba.rs | - | KARATSUBA_MIN_STARTING_LIMBS
+pub const KARATSUBA_MIN_STARTING_LIMBS: usize = 32;
+//@@ end
+//@@ fn src/uint/boxed/mul.rs | impl BoxedUint | mul | body | props C03 C11 C15
 impl BoxedUint {
-#[verifier::external_body]
 pub fn mul(&self, rhs: &Self) -> (ret__: Self)
 //@+
     requires self.nl() + rhs.nl() >= 1, self.nl() < 0x400_0000, rhs.nl() < 0x400_0000
     ensures ret__.nl() == self.nl() + rhs.nl(), ret__.v() == self.v() * rhs.v()
 //@-
 {
-    unimplemented!()
-}
+//@+
+    let ghost n = self.limbs@.len(); let ghost m = rhs.limbs@.len();
+//@-
+        let size = self.nlimbs() + rhs.nlimbs();
+        let overlap = self.nlimbs().min(rhs.nlimbs());
+        if self.nlimbs().min(rhs.nlimbs()) >= KARATSUBA_MIN_STARTING_LIMBS {
+            let mut limbs = vec![Limb::ZERO; size + overlap * 2];
+            let (out, scratch) = limbs.as_mut_slice().split_at_mut(size);
+//@+
+    proof { assert(ks_size(n, m) <= overlap); }
+//@-
+            karatsuba_mul_limbs(&self.limbs, &rhs.limbs, out, scratch);
+//@+
+    let ghost ov = out@;
+//@-
+            limbs.truncate(size);
+//@+
+    proof { assert(limbs@ =~= ov); }
+//@-
+            return limbs.into();
+        }
+        let mut limbs = vec![Limb::ZERO; size];
+        mul_limbs(&self.limbs, &rhs.limbs, &mut limbs);
+        limbs.into()
+    }
 }
 //@@ end
-//@@ fn src/uint/boxed.rs | impl BoxedUint | shorten | stub | props C15 C11
+//@@ fn src/uint/boxed.rs | impl BoxedUint | shorten | body | props C15 C11
 impl BoxedUint {
-#[verifier::external_body]
 pub fn shorten(&self, at_least_bits_precision: u32) -> (ret__: BoxedUint)
 //@+
     requires self.wf(), at_least_bits_precision as int <= 64 * self.nl()
@@ -1014,8 +1750,22 @@ pub fn shorten(&self, at_least_bits_precision: u32) -> (ret__: BoxedUint)
         forall|k: int| 0 <= k < ret__.limbs@.len() ==> ret__.limbs@[k] == self.limbs@[k]
 //@-
 {
-    unimplemented!()
-}
+        assert!(at_least_bits_precision <= self.bits_precision());
+        let mut ret = BoxedUint::zero_with_precision(at_least_bits_precision);
+        let nlimbs = ret.nlimbs();
+//@+
+    let ghost m = ret.limbs@.len();
+//@-
+        ret.limbs.copy_from_slice(&self.limbs[..nlimbs]);
+//@+
+    proof {
+        assert(ret.limbs@ =~= self.limbs@.subrange(0, m as int));
+        lemma_val_ext(ret.limbs@, self.limbs@, m);
+        lemma_val_mod(self.limbs@, m, self.limbs@.len());
+    }
+//@-
+        ret
+    }
 }
 //@@ end
 //@@ fn src/uint/boxed/mul.rs | impl BoxedUint | wrapping_mul | body | props C03 C11 C15
@@ -1397,14 +2147,18 @@ pub trait ExAsRef<T: core::marker::PointeeSized>: core::marker::PointeeSized {
         ensures Self::obeys_as_ref_spec() ==> r == self.as_ref_spec();
 }
 impl AsRefSpecImpl<[Limb]> for BoxedUint {
-    open spec fn obeys_as_ref_spec() -> bool { false }
+    // claimed AND checked: the region `impl AsRef<[Limb]> for BoxedUint | as_ref` below is verified against the trait-level `ensures`
+    open spec fn obeys_as_ref_spec() -> bool { true }
     open spec fn as_ref_spec(&self) -> &[Limb] { &*self.limbs }
 }
 // core: `impl<T: ?Sized + AsRef<U>, U: ?Sized> AsRef<U> for &T { fn as_ref(&self) -> &U { <T as AsRef<U>>::as_ref(*self) } }`
+// (ASSUMED model of the forwarding impl of core: `&T` obeys whenever `T` does)
 impl<'a, T: AsRef<U> + ?Sized, U: ?Sized> AsRefSpecImpl<U> for &'a T {
-    open spec fn obeys_as_ref_spec() -> bool { false }
+    open spec fn obeys_as_ref_spec() -> bool { T::obeys_as_ref_spec() }
     open spec fn as_ref_spec(&self) -> &U { (**self).as_ref_spec() }
 }
+/// `rhs.as_ref()` returns `rhs.as_ref_spec()` (precondition of the functions taking `rhs: impl AsRef<[Limb]>`: the type is anonymous there)
+pub open spec fn asref_ok<R: AsRef<[Limb]>>(r: &R) -> bool { R::obeys_as_ref_spec() }
 
 // ---- comparison operators of BoxedUint: vstd-level specifications (`a < b` on references is resolved through these)
 pub open spec fn bord_of(a: int, b: int) -> Ordering {
@@ -1424,6 +2178,12 @@ impl vstd::std_specs::cmp::OrdSpecImpl for BoxedUint {
 }
 // /repo: `impl Eq for BoxedUint {}` (marker, no method)
 impl Eq for BoxedUint {}
+// `Debug for BoxedUint` (/repo: `write!(f, "BoxedUint(0x{self:X})")`, formatting machinery, not extracted): only needed to TYPE the
+// `debug_assert_eq!(self, other)` of `Ord::cmp`; never executed on the verified paths (reaching the panic is a proof obligation)
+impl core::fmt::Debug for BoxedUint {
+    #[verifier::external_body]
+    fn fmt(&self, f: &mut core::fmt::Formatter<'_>) -> core::fmt::Result { Ok(()) }
+}
 // `From` impls of src/uint/boxed/from.rs: no vstd-level from_spec is claimed; behaviour = `ensures` of the regions
 impl vstd::std_specs::convert::FromSpecImpl<u64> for BoxedUint {
     open spec fn obeys_from_spec() -> bool { false }
@@ -1436,6 +2196,10 @@ impl vstd::std_specs::convert::FromSpecImpl<u128> for BoxedUint {
 impl vstd::std_specs::convert::FromSpecImpl<Limb> for BoxedUint {
     open spec fn obeys_from_spec() -> bool { false }
     open spec fn from_spec(n: Limb) -> BoxedUint { arbitrary() }
+}
+impl vstd::std_specs::convert::FromSpecImpl<Box<[Limb]>> for BoxedUint {
+    open spec fn obeys_from_spec() -> bool { false }
+    open spec fn from_spec(n: Box<[Limb]>) -> BoxedUint { arbitrary() }
 }
 impl<'a> vstd::std_specs::convert::FromSpecImpl<&'a [Limb]> for BoxedUint {
     open spec fn obeys_from_spec() -> bool { false }
@@ -1557,16 +2321,15 @@ pub proof fn lemma_not_all()
 // ------------------------------------------------------------------------------------------------
 // C07: modular arithmetic (src/uint/boxed/add_mod.rs, sub_mod.rs, neg_mod.rs, mul_mod.rs)
 // ------------------------------------------------------------------------------------------------
-//@@ fn src/uint/boxed.rs | impl BoxedUint | as_limbs | stub | props C16 C11
+//@@ fn src/uint/boxed.rs | impl BoxedUint | as_limbs | body | props C16 C11
 impl BoxedUint {
-#[verifier::external_body]
 pub fn as_limbs(&self) -> (ret__: &[Limb])
 //@+
     ensures ret__@ == self.limbs@
 //@-
 {
-    unimplemented!()
-}
+        self.limbs.as_ref()
+    }
 }
 //@@ end
 //@@ fn src/uint/boxed.rs | impl AsRef<[Limb]> for BoxedUint | as_ref | body | props C16 C11
@@ -1580,35 +2343,128 @@ fn as_ref(&self) -> (ret__: &[Limb])
     }
 }
 //@@ end
-//@@ fn src/uint/boxed/add.rs | impl BoxedUint | adc_assign | stub | props C04 C11 C15
+//@@ fn src/uint/boxed/add.rs | impl BoxedUint | adc_assign | body | props C04 C11 C15
 impl BoxedUint {
-#[verifier::external_body]
 pub fn adc_assign(&mut self, rhs: impl AsRef<[Limb]>, mut carry: Limb) -> (ret__: Limb)
 //@+
-    requires old(self).limbs@.len() < 0x400_0000, rhs.as_ref_spec()@.len() <= old(self).limbs@.len()
+    requires old(self).limbs@.len() < 0x400_0000, rhs.as_ref_spec()@.len() <= old(self).limbs@.len(), asref_ok(&rhs)
     ensures final(self).nl() == old(self).nl(),
         final(self).v() + ret__.0 as int * bp(old(self).nl()) == old(self).v() + val(rhs.as_ref_spec()@, rhs.as_ref_spec()@.len()) + carry.0 as int,
         final(self).v() == (old(self).v() + val(rhs.as_ref_spec()@, rhs.as_ref_spec()@.len()) + carry.0 as int) % bp(old(self).nl()),
         carry.0 <= 1 ==> ret__.0 <= 1
 //@-
 {
-    unimplemented!()
-}
+//@+
+    let ghost s0 = self.limbs@; let ghost n = self.limbs@.len(); let ghost rs = rhs.as_ref_spec()@; let ghost m = rs.len(); let ghost c0 = carry.0 as int;
+    proof {
+        lemma_bp_succ(0);
+        assert(carry.0 as int * bp(0) == c0) by (nonlinear_arith) requires bp(0) == 1, c0 == carry.0 as int;
+        assert((m as u32) as int == m);
+    }
+//@-
+        assert!(self.bits_precision() >= (rhs.as_ref().len() as u32 * Limb::BITS));
+        for i in 0..self.nlimbs()
+//@+
+    invariant self.limbs@.len() == n, s0.len() == n, m <= n, rs == rhs.as_ref_spec()@, rs.len() == m, asref_ok(&rhs), VERUS_ghost_iter.iter.end == n,
+        forall|k: int| VERUS_ghost_iter.index@ <= k < n ==> self.limbs@[k] == s0[k],
+        c0 <= 1 ==> carry.0 <= 1,
+        val(self.limbs@, VERUS_ghost_iter.index@ as nat) + carry.0 as int * bp(VERUS_ghost_iter.index@ as nat)
+            == val(s0, VERUS_ghost_iter.index@ as nat) + val(rs, min_int(VERUS_ghost_iter.index@, m as int) as nat) + c0,
+//@-
+{
+//@+
+    let ghost sb = self.limbs@; let ghost cb = carry.0 as int;
+//@-
+            let (limb, b) = self.limbs[i].adc(*rhs.as_ref().get(i).unwrap_or(&Limb::ZERO), carry);
+            self.limbs[i] = limb;
+            carry = b;
+//@+
+    proof {
+        lemma_val_ext(sb, self.limbs@, i as nat);
+        lemma_bp_succ(i as nat);
+        let pk = bp(i as nat); let x = limb.0 as int; let c1 = carry.0 as int; let si = s0[i as int].0 as int;
+        let rv: int = if i < m { rs[i as int].0 as int } else { 0 };
+        assert(x + c1 * B() == si + rv + cb);
+        if c0 <= 1 { assert(c1 <= 1) by (nonlinear_arith) requires x + c1 * B() == si + rv + cb, x >= 0, si < B(), rv < B(), cb <= 1, B() > 0; }
+        assert(x * pk + c1 * (B() * pk) == si * pk + rv * pk + cb * pk) by (nonlinear_arith) requires x + c1 * B() == si + rv + cb;
+        if i < m { assert(val(rs, (i + 1) as nat) == val(rs, i as nat) + rv * pk); } else { assert(rv * pk == 0) by (nonlinear_arith) requires rv == 0; }
+    }
+//@-
+        }
+//@+
+    proof {
+        lemma_val_bound(self.limbs@, n); lemma_val_bound(s0, n); lemma_val_bound(rs, m);
+        lemma_fundamental_div_mod_converse(val(s0, n) + val(rs, m) + c0, bp(n), carry.0 as int, val(self.limbs@, n));
+    }
+//@-
+        carry
+    }
 }
 //@@ end
-//@@ fn src/uint/boxed/sub.rs | impl BoxedUint | sbb_assign | stub | props C04 C11 C15
+//@@ fn src/uint/boxed/sub.rs | impl BoxedUint | sbb_assign | body | props C04 C11 C15
 impl BoxedUint {
-#[verifier::external_body]
 pub fn sbb_assign(&mut self, rhs: impl AsRef<[Limb]>, mut borrow: Limb) -> (ret__: Limb)
 //@+
-    requires old(self).limbs@.len() < 0x400_0000, rhs.as_ref_spec()@.len() <= old(self).limbs@.len()
+    // (an empty `self` returns `borrow` unchanged: the mask shape of the result then needs a mask on input)
+    requires old(self).limbs@.len() < 0x400_0000, rhs.as_ref_spec()@.len() <= old(self).limbs@.len(), asref_ok(&rhs),
+        old(self).limbs@.len() >= 1 || borrow.0 == 0 || borrow.0 == u64::MAX
     ensures final(self).nl() == old(self).nl(), ret__.0 == 0 || ret__.0 == u64::MAX,
         final(self).v() - bb(ret__) * bp(old(self).nl()) == old(self).v() - val(rhs.as_ref_spec()@, rhs.as_ref_spec()@.len()) - (borrow.0 >> 63) as int,
         final(self).v() == (old(self).v() - val(rhs.as_ref_spec()@, rhs.as_ref_spec()@.len()) - (borrow.0 >> 63) as int) % bp(old(self).nl())
 //@-
 {
-    unimplemented!()
-}
+//@+
+    let ghost s0 = self.limbs@; let ghost n = self.limbs@.len(); let ghost rs = rhs.as_ref_spec()@; let ghost m = rs.len(); let ghost borrow0 = borrow;
+    let ghost b0i = (borrow.0 >> 63) as int;
+    proof {
+        lemma_bp_succ(0);
+        assert((m as u32) as int == m);
+        let bw = borrow.0;
+        assert((bw == 0 || bw == 0xffff_ffff_ffff_ffffu64) ==> bw >> 63 == (if bw == 0xffff_ffff_ffff_ffffu64 { 1u64 } else { 0u64 })) by (bit_vector);
+        assert(b0i * bp(0) == b0i) by (nonlinear_arith) requires bp(0) == 1;
+    }
+//@-
+        assert!(self.bits_precision() >= (rhs.as_ref().len() as u32 * Limb::BITS));
+        for i in 0..self.nlimbs()
+//@+
+    invariant self.limbs@.len() == n, s0.len() == n, m <= n, rs == rhs.as_ref_spec()@, rs.len() == m, asref_ok(&rhs), VERUS_ghost_iter.iter.end == n,
+        forall|k: int| VERUS_ghost_iter.index@ <= k < n ==> self.limbs@[k] == s0[k],
+        VERUS_ghost_iter.index@ > 0 ==> (borrow.0 == 0 || borrow.0 == u64::MAX), VERUS_ghost_iter.index@ == 0 ==> borrow == borrow0,
+        b0i == (borrow0.0 >> 63) as int,
+        val(self.limbs@, VERUS_ghost_iter.index@ as nat) - (if VERUS_ghost_iter.index@ == 0 { b0i } else { bb(borrow) }) * bp(VERUS_ghost_iter.index@ as nat)
+            == val(s0, VERUS_ghost_iter.index@ as nat) - val(rs, min_int(VERUS_ghost_iter.index@, m as int) as nat) - b0i,
+//@-
+{
+//@+
+    let ghost sb = self.limbs@; let ghost bprev = borrow;
+//@-
+            let (limb, b) = self.limbs[i].sbb(*rhs.as_ref().get(i).unwrap_or(&Limb::ZERO), borrow);
+            self.limbs[i] = limb;
+            borrow = b;
+//@+
+    proof {
+        lemma_val_ext(sb, self.limbs@, i as nat);
+        lemma_bp_succ(i as nat);
+        let pk = bp(i as nat); let x = limb.0 as int; let si = s0[i as int].0 as int;
+        let rv: int = if i < m { rs[i as int].0 as int } else { 0 };
+        let bin = (bprev.0 >> 63) as int; let bw = bprev.0;
+        if i > 0 { assert(bw >> 63 == (if bw == 0xffff_ffff_ffff_ffffu64 { 1u64 } else { 0u64 })) by (bit_vector) requires bw == 0 || bw == 0xffff_ffff_ffff_ffffu64; }
+        assert(x - bb(borrow) * B() == si - rv - bin);
+        assert(x * pk - bb(borrow) * (B() * pk) == si * pk - rv * pk - bin * pk) by (nonlinear_arith) requires x - bb(borrow) * B() == si - rv - bin;
+        if i < m { assert(val(rs, (i + 1) as nat) == val(rs, i as nat) + rv * pk); } else { assert(rv * pk == 0) by (nonlinear_arith) requires rv == 0; }
+    }
+//@-
+        }
+//@+
+    proof {
+        lemma_val_bound(self.limbs@, n); lemma_val_bound(s0, n); lemma_val_bound(rs, m);
+        if n == 0 { assert(bb(borrow) == b0i); assert(bb(borrow) * bp(0) == bb(borrow)) by (nonlinear_arith) requires bp(0) == 1; }
+        assert((-bb(borrow)) * bp(n) == -(bb(borrow) * bp(n))) by (nonlinear_arith);
+        lemma_fundamental_div_mod_converse(val(s0, n) - val(rs, m) - b0i, bp(n), -bb(borrow), val(self.limbs@, n));
+    }
+//@-
+        borrow
+    }
 }
 //@@ end
 //@@ fn src/uint/boxed/sub.rs | impl BoxedUint | wrapping_sub | body | props C04 C11 C15
@@ -1626,17 +2482,57 @@ pub fn wrapping_sub(&self, rhs: &Self) -> (ret__: Self)
     }
 }
 //@@ end
-//@@ fn src/uint/boxed/shl.rs | impl BoxedUint | shl1_assign | stub | props C05 C11
+//@@ fn src/uint/boxed/shl.rs | impl BoxedUint | shl1_assign | body | props C05 C11
 impl BoxedUint {
-#[verifier::external_body]
 pub fn shl1_assign(&mut self) -> (ret__: Limb)
 //@+
     requires old(self).nl() >= 1
     ensures final(self).nl() == old(self).nl(), ret__.0 <= 1, final(self).v() + ret__.0 as int * bp(old(self).nl()) == 2 * old(self).v()
 //@-
 {
-    unimplemented!()
-}
+//@+
+    let ghost s0 = self.limbs@; let ghost n = self.limbs@.len();
+//@-
+        let mut carry = self.limbs[0] >> Limb::HI_BIT;
+        self.limbs[0].shl_assign(1);
+//@+
+    proof {
+        let x = s0[0].0;
+        assert((x << 1u32) as int + (x >> 63u32) as int * 0x1_0000_0000_0000_0000 == 2 * x) by (bit_vector);
+        assert(x >> 63u32 <= 1) by (bit_vector);
+        lemma_bp1();
+        assert(val(self.limbs@, 1) == val(self.limbs@, 0) + self.limbs@[0].0 as int * bp(0));
+        assert(val(s0, 1) == val(s0, 0) + s0[0].0 as int * bp(0));
+        assert(self.limbs@[0].0 as int * bp(0) == self.limbs@[0].0 as int) by (nonlinear_arith) requires bp(0) == 1;
+        assert(s0[0].0 as int * bp(0) == s0[0].0 as int) by (nonlinear_arith) requires bp(0) == 1;
+    }
+//@-
+        for i in 1..self.limbs.len()
+//@+
+    invariant self.limbs@.len() == n, s0.len() == n, n >= 1, VERUS_ghost_iter.iter.end == n, i == VERUS_ghost_iter.index@ + 1,
+        forall|k: int| i <= k < n ==> self.limbs@[k] == s0[k], carry.0 <= 1,
+        val(self.limbs@, i as nat) + carry.0 as int * bp(i as nat) == 2 * val(s0, i as nat),
+//@-
+{
+//@+
+    let ghost sb = self.limbs@; let ghost cb = carry.0;
+//@-
+            let (__t0, __t1) = ((self.limbs[i] << 1) | carry, self.limbs[i] >> Limb::HI_BIT); self.limbs[i] = __t0; carry = __t1;
+//@+
+    proof {
+        let y = s0[i as int].0; let w = self.limbs@[i as int].0; let c1 = carry.0;
+        assert(((y << 1u32) | cb) as int + (y >> 63u32) as int * 0x1_0000_0000_0000_0000 == 2 * y + cb) by (bit_vector) requires cb <= 1;
+        assert(y >> 63u32 <= 1) by (bit_vector);
+        lemma_val_ext(sb, self.limbs@, i as nat);
+        lemma_bp_succ(i as nat);
+        let pk = bp(i as nat);
+        assert(w as int * pk + c1 as int * (B() * pk) == (2 * y as int) * pk + cb as int * pk) by (nonlinear_arith) requires w as int + c1 as int * B() == 2 * y as int + cb as int;
+        assert(2 * (val(s0, i as nat) + y as int * pk) == 2 * val(s0, i as nat) + (2 * y as int) * pk) by (nonlinear_arith);
+    }
+//@-
+        }
+        carry
+    }
 }
 //@@ end
 //@@ fn src/uint/boxed/shl.rs | impl BoxedUint | overflowing_shl1 | body | props C05 C11 C15
@@ -1677,28 +2573,45 @@ fn from(n: u128) -> (ret__: Self)
 }
 }
 //@@ end
-//@@ fn src/uint/boxed/from.rs | impl From<Limb> for BoxedUint | from | stub | props C16 C11
+//@@ fn src/uint/boxed/from.rs | impl From<Limb> for BoxedUint | from | body | props C16 C11
 impl From<Limb> for BoxedUint {
-#[verifier::external_body]
 fn from(limb: Limb) -> (ret__: Self)
 //@+
     ensures ret__.nl() == 1, ret__.v() == limb.0
 //@-
 {
-    unimplemented!()
-}
+//@+
+    proof {
+        assert forall|s: Seq<Limb>| s.len() == 1 implies #[trigger] val(s, s.len()) == s[0].0 as int by { lemma_val_single(s, 1); }
+    }
+//@-
+        vec![limb; 1].into()
+    }
 }
 //@@ end
-//@@ fn src/uint/boxed/from.rs | impl From<&[Limb]> for BoxedUint | from | stub | props C16 C11
+//@@ fn src/uint/boxed/from.rs | impl From<Box<[Limb]>> for BoxedUint | from | body | props C16 C15 C11
+impl From<Box<[Limb]>> for BoxedUint {
+fn from(limbs: Box<[Limb]>) -> (ret__: BoxedUint)
+//@+
+    ensures ret__.limbs@ == (if limbs@.len() == 0 { seq![Limb(0)] } else { limbs@ }),
+        ret__.limbs@.len() >= 1, ret__.v() == val(limbs@, limbs@.len())
+//@-
+{
+        Vec::from(limbs).into()
+    }
+}
+//@@ end
+//@@ fn src/uint/boxed/from.rs | impl From<&[Limb]> for BoxedUint | from | body | props C16 C11
 impl From<&[Limb]> for BoxedUint {
-#[verifier::external_body]
 fn from(limbs: &[Limb]) -> (ret__: BoxedUint)
 //@+
     ensures ret__.limbs@ == limbs@
 //@-
 {
-    unimplemented!()
-}
+        Self {
+            limbs: limbs.into(),
+        }
+    }
 }
 //@@ end
 //@@ fn src/uint/boxed/cmp.rs | impl PartialEq for BoxedUint | eq | body | props C06 C11 C15
@@ -1712,16 +2625,25 @@ fn eq(&self, other: &Self) -> (ret__: bool)
     }
 }
 //@@ end
-//@@ fn src/uint/boxed/cmp.rs | impl Ord for BoxedUint | cmp | stub | props C06 C11 C15
+//@@ fn src/uint/boxed/cmp.rs | impl Ord for BoxedUint | cmp | body | props C06 C11 C15
 impl Ord for BoxedUint {
-#[verifier::external_body]
 fn cmp(&self, other: &Self) -> (ret__: Ordering)
 //@+
     ensures ret__ == bord_of(self.v(), other.v())
 //@-
 {
-    unimplemented!()
-}
+//@+
+    proof { lemma_choice_ops(Choice(0), Choice(0)); }
+//@-
+        let mut ret = Ordering::Equal;
+        ret.conditional_assign(&Ordering::Greater, self.ct_gt(other));
+        ret.conditional_assign(&Ordering::Less, self.ct_lt(other));
+        #[cfg(debug_assertions)]
+        if ret == Ordering::Equal {
+            debug_assert_eq!(self, other);
+        }
+        ret
+    }
 }
 //@@ end
 //@@ fn src/uint/boxed/cmp.rs | impl PartialOrd for BoxedUint | partial_cmp | body | props C06 C11 C15
@@ -2519,9 +3441,92 @@ pub fn trailing_zeros(&self) -> (ret__: u32)
     }
 }
 //@@ end
-//@@ fn src/uint/boxed/shr.rs | impl BoxedUint | overflowing_shr_assign | stub | props C05 C11
+//@@ fn src/uint/boxed/shr.rs | impl BoxedUint | shr_vartime_into | body | props C05 C11
 impl BoxedUint {
-#[verifier::external_body]
+pub fn shr_vartime_into(&self, dest: &mut Self, shift: u32) -> (ret__: Option<()>)
+//@+
+    // WARNING of /repo ("`dest` is assumed to be pre-zeroized") = the third precondition
+    requires self.wf(), old(dest).limbs@.len() == self.limbs@.len(), forall|k: int| 0 <= k < old(dest).limbs@.len() ==> old(dest).limbs@[k].0 == 0
+    ensures final(dest).limbs@.len() == self.limbs@.len(), (ret__ is None) == (shift as int >= 64 * self.nl()),
+        (shift as int) < 64 * self.nl() ==> final(dest).v() == self.v() / p2(shift as nat),
+        shift as int >= 64 * self.nl() ==> final(dest).limbs@ == old(dest).limbs@
+//@-
+{
+        if shift >= self.bits_precision() {
+            return None;
+        }
+        let nlimbs = self.nlimbs();
+        let shift_num = (shift / Limb::BITS) as usize;
+        let rem = shift % Limb::BITS;
+//@+
+    let ghost n = self.limbs@.len(); let ghost sn = shift_num as nat; let ghost m = (n - sn) as nat;
+    proof {
+        assert(shift_num as int == shift as int / 64 && rem as int == shift as int % 64);
+        lemma_fundamental_div_mod(shift as int, 64);
+        assert(sn < n);
+    }
+//@-
+        for i in 0..nlimbs - shift_num
+//@+
+    invariant dest.limbs@.len() == n, self.limbs@.len() == n, sn == shift_num, sn < n, nlimbs == n, m == n - sn, VERUS_ghost_iter.iter.end == m,
+        forall|j: int| 0 <= j < VERUS_ghost_iter.index@ ==> dest.limbs@[j] == self.limbs@[j + sn],
+        forall|j: int| VERUS_ghost_iter.index@ <= j < n ==> dest.limbs@[j].0 == 0,
+//@-
+{
+            dest.limbs[i] = self.limbs[i + shift_num];
+        }
+//@+
+    let ghost p1 = dest.limbs@; let ghost hiv = val(p1, m);
+    proof {
+        lemma_shift_down(self.limbs@, p1, sn, m);
+        assert((sn + m) as nat == n);
+        lemma_val_hi_zero(p1, m, n);
+        lemma_val_bound(self.limbs@, sn); lemma_val_bound(p1, m);
+        lemma_shr_limbs_div(self.v(), val(self.limbs@, sn), hiv, sn, rem as nat, shift as nat);
+    }
+//@-
+        if rem == 0 {
+            return Some(());
+        }
+        for i in 0..nlimbs - shift_num - 1
+//@+
+    invariant dest.limbs@.len() == n, p1.len() == n, sn == shift_num, sn < n, nlimbs == n, m == n - sn, 0 < rem < 64, VERUS_ghost_iter.iter.end == m - 1,
+        forall|j: int| 0 <= j < VERUS_ghost_iter.index@ ==> dest.limbs@[j].0 == (p1[j].0 >> rem) | (p1[j + 1].0 << ((64 - rem) as u32)),
+        forall|j: int| VERUS_ghost_iter.index@ <= j < n ==> dest.limbs@[j] == p1[j],
+        forall|j: int| m <= j < n ==> p1[j].0 == 0,
+//@-
+{
+            let shifted = dest.limbs[i].shr(rem);
+            let carry = dest.limbs[i + 1].shl(Limb::BITS - rem);
+            dest.limbs[i] = shifted.bitor(carry);
+//@+
+    proof { lemma_u64_shr_div(p1[i as int].0, rem); lemma_u64_shl_mod(p1[i + 1].0, (64 - rem) as u32); }
+//@-
+        }
+        dest.limbs[nlimbs - shift_num - 1] = dest.limbs[nlimbs - shift_num - 1].shr(rem);
+//@+
+    proof {
+        let s = p1; let d = dest.limbs@; let mm = (m - 1) as nat; let pr = p2(rem as nat);
+        lemma_u64_shr_div(s[mm as int].0, rem);
+        lemma_shr_limbs(s, d, mm, rem);
+        let s0 = s[0].0 as int; let h0 = (s[0].0 >> rem) as int; let lo = s0 - pr * h0; let top = (s[mm as int].0 >> rem) as int;
+        lemma_u64_shr_div(s[0].0, rem); lemma_pow2_pos(rem as nat);
+        lemma_fundamental_div_mod(s0, pr); lemma_mod_bound(s0, pr);
+        assert(val(d, m) == val(d, mm) + top * bp(mm));
+        assert((mm + 1) as nat == m);
+        assert(val(s, m) == pr * val(d, m) + lo) by (nonlinear_arith)
+            requires pr * val(d, mm) + pr * top * bp(mm) + lo == val(s, m), val(d, m) == val(d, mm) + top * bp(mm);
+        lemma_fundamental_div_mod_converse(val(s, m), pr, val(d, m), lo);
+        assert forall|k: int| m <= k < n implies d[k].0 == 0 by { assert(d[k] == p1[k]); }
+        lemma_val_hi_zero(d, m, n);
+    }
+//@-
+        Some(())
+    }
+}
+//@@ end
+//@@ fn src/uint/boxed/shr.rs | impl BoxedUint | overflowing_shr_assign | body | props C05 C11
+impl BoxedUint {
 pub fn overflowing_shr_assign(&mut self, shift: u32) -> (ret__: Choice)
 //@+
     requires old(self).wf()
@@ -2529,8 +3534,83 @@ pub fn overflowing_shr_assign(&mut self, shift: u32) -> (ret__: Choice)
         final(self).v() == (if shift as int >= 64 * old(self).nl() { 0 } else { old(self).v() / p2(shift as nat) })
 //@-
 {
-    unimplemented!()
-}
+        // `floor(log2(bits_precision - 1))` is the number of bits in the representation of `shift`
+        // (which lies in range `0 <= shift < bits_precision`).
+//@+
+    let ghost n = self.limbs@.len(); let ghost v0 = self.v(); let ghost shift0 = shift;
+    proof { lemma_lz32((64 * n - 1) as u32); }
+//@-
+        let shift_bits = u32::BITS - (self.bits_precision() - 1).leading_zeros();
+        let overflow = !shift.ct_lt(&self.bits_precision());
+        let shift = shift % self.bits_precision();
+        let mut temp = self.clone();
+//@+
+    proof {
+        lemma_pow2_64(); lemma_bp_succ(n); lemma_val_bound(self.limbs@, n);
+        assert((shift as int) % 1 == 0);
+        assert(v0 / 1 == v0);
+        if (shift0 as int) < 64 * n { lemma_small_mod(shift0 as nat, (64 * n) as nat); }
+        lemma_mod_bound(shift0 as int, 64 * (n as int));
+        let lt = Choice(if (shift0 as int) < 64 * n { 1u8 } else { 0u8 }); lemma_choice_ops(lt, lt);
+    }
+//@-
+        for i in 0..shift_bits
+//@+
+    invariant self.limbs@.len() == n, temp.limbs@.len() == n, 1 <= n < 0x400_0000, (shift as int) < 64 * n, 1 <= shift_bits <= 32,
+        VERUS_ghost_iter.iter.end == shift_bits, p2((shift_bits - 1) as nat) <= 64 * n - 1, 0 <= v0 < bp(n),
+        self.v() == v0 / p2(((shift as int) % p2(VERUS_ghost_iter.index@ as nat)) as nat),
+//@-
+{
+//@+
+    let ghost lo = (shift as int) % p2(i as nat);
+    proof {
+        lemma_ladder_step(shift, i);
+        if i < shift_bits - 1 { lemma_pow2_strictly_increases(i as nat, (shift_bits - 1) as nat); }
+        lemma_pow2_pos(i as nat); lemma_mod_bound(shift as int, p2(i as nat));
+        lemma_shr_compose(v0, lo as nat, p2(i as nat) as nat);
+    }
+//@-
+            let bit = Choice::from(((shift >> i) & 1) as u8);
+//@+
+    let ghost sb = self.limbs@;
+//@-
+            temp.set_zero();
+            // Will not overflow by construction
+            self.shr_vartime_into(&mut temp, 1 << i)
+                .expect("shift within range");
+            self.ct_assign(&temp, bit);
+//@+
+    proof {
+        let b = (shift >> i) & 1u32;
+        assert(bit.0 == b as u8 && b <= 1);
+        assert(bit.wf() && bit.t() == (b == 1));
+        assert(((1u32 << i) as nat) == p2(i as nat) as nat);
+        if b == 1 {
+            assert(self.limbs@ == temp.limbs@);
+            assert(self.v() == val(sb, n) / p2(p2(i as nat) as nat));
+            assert(b as int * p2(i as nat) == p2(i as nat)) by (nonlinear_arith) requires b == 1;
+            assert((shift as int) % p2((i + 1) as nat) == lo + p2(i as nat));
+            assert(((lo as nat) + (p2(i as nat) as nat)) as nat == (lo + p2(i as nat)) as nat);
+        } else {
+            assert(b == 0);
+            assert(self.limbs@ == sb);
+            assert(b as int * p2(i as nat) == 0) by (nonlinear_arith) requires b == 0;
+            assert((shift as int) % p2((i + 1) as nat) == lo);
+        }
+    }
+//@-
+        }
+        #[cfg(feature = "zeroize")]
+        zeroize::Zeroize::zeroize(&mut temp);
+//@+
+    proof {
+        assert((shift as int) < p2(shift_bits as nat));
+        lemma_small_mod(shift as nat, p2(shift_bits as nat) as nat);
+    }
+//@-
+        self.conditional_set_zero(overflow);
+        overflow
+    }
 }
 //@@ end
 //@@ fn src/uint/boxed/shr.rs | impl BoxedUint | overflowing_shr | body | props C05 C11 C15
@@ -2548,9 +3628,8 @@ pub fn overflowing_shr(&self, shift: u32) -> (ret__: (Self, Choice))
     }
 }
 //@@ end
-//@@ fn src/uint/boxed/bit_and.rs | impl BoxedUint | bitand | stub | props C05 C11 C15
+//@@ fn src/uint/boxed/bit_and.rs | impl BoxedUint | bitand | body | props C05 C11 C15
 impl BoxedUint {
-#[verifier::external_body]
 pub fn bitand(&self, rhs: &Self) -> (ret__: Self)
 //@+
     requires self.nl() >= 1 || rhs.nl() >= 1
@@ -2559,8 +3638,14 @@ pub fn bitand(&self, rhs: &Self) -> (ret__: Self)
             == (if j < self.limbs@.len() { self.limbs@[j].0 } else { 0u64 }) & (if j < rhs.limbs@.len() { rhs.limbs@[j].0 } else { 0u64 })
 //@-
 {
-    unimplemented!()
-}
+        Self::map_limbs(self, rhs, |a, b|
+//@+
+    -> (r: Limb) ensures r.0 == a.0 & b.0
+//@-
+{
+a.bitand(b)
+})
+    }
 }
 //@@ end
 //@@ fn src/modular/safegcd/boxed.rs | - | gcd | stub | props C10 C11
@@ -2630,16 +3715,15 @@ pub broadcast proof fn lemma_shl_small_u64(x: u64, s: u32)
     ensures (x == 1 && 1 <= s <= 4) ==> 2 <= #[trigger] (x << s) <= 16
 { assert((x == 1 && 1 <= s <= 4) ==> 2 <= (x << s) <= 16) by (bit_vector); }
 
-//@@ fn src/uint/boxed.rs | impl BoxedUint | as_limbs_mut | stub | props C16 C11
+//@@ fn src/uint/boxed.rs | impl BoxedUint | as_limbs_mut | body | props C16 C11
 impl BoxedUint {
-#[verifier::external_body]
 pub fn as_limbs_mut(&mut self) -> (ret__: &mut [Limb])
 //@+
     ensures ret__@ == old(self).limbs@, final(self).limbs@ == final(ret__)@
 //@-
 {
-    unimplemented!()
-}
+        self.limbs.as_mut()
+    }
 }
 //@@ end
 //@@ fn src/uint/boxed/sub.rs | impl BoxedUint | conditional_sbb_assign | body | props C04 C11
@@ -2713,7 +3797,7 @@ pub fn conditional_sbb_assign(&mut self, rhs: &Self, choice: Choice) -> (ret__: 
 //@@ fn src/uint/boxed/cmp.rs | impl ConstantTimeLess for BoxedUint | ct_lt | body | props C06 C11
 impl ConstantTimeLess for BoxedUint {
 //@+
-    open spec fn ct_lt_req(&self, other: &Self) -> bool { self.nl() >= 1 || other.nl() >= 1 }
+    open spec fn ct_lt_req(&self, other: &Self) -> bool { true }
     open spec fn ct_lt_ens(&self, other: &Self, r: Choice) -> bool { r.wf() && r.t() == (self.v() < other.v()) }
 //@-
 fn ct_lt(&self, other: &Self) -> (ret__: Choice)
